@@ -1,6 +1,7 @@
 /-
   Helper lemmas about the blue-green control-plane model: inversion ("what can a call return")
-  lemmas without `match`, and the facts about the HPA lists the theorems need.
+  lemmas without `match`, the facts about the HPA lists the theorems need, and the proofs of the
+  property theorems stated in `RV.Props.CtlBlueGreenThms`.
 -/
 import RV.Oracle.CtlBlueGreen
 namespace RV.Lemmas.CtlBlueGreen
@@ -19,21 +20,19 @@ theorem hpaMatches_set (a : HPA) (k : Nat) (hm : hpaMatches a = true) : hpaMatch
   simp only [Bool.and_eq_true] at hm ⊢
   exact ⟨hm.1, rfl⟩
 
-theorem findIn_setFirst (l : List HPA) (k0 k : Nat) (h : findIn l = .val (some k0)) :
-    findIn (setFirst k l) = .val (some k) := by
+/-- after the patch of the first matching item, that item is found again with the new name -/
+theorem findIn_setFirst (l : List HPA) (k0 k : Nat) (h : findIn l = some k0) :
+    findIn (setFirst k l) = some k := by
   induction l with
   | nil => simp [findIn] at h
   | cons a t ih =>
     unfold findIn at h
     split at h
-    · cases h
-    · rename_i hav
-      split at h
-      · rename_i hm
-        simp only [setFirst, hm, if_true, findIn, hav, if_false, hpaMatches_set a k hm]
-      · rename_i hm
-        simp only [setFirst, hm, findIn, hav, if_false, Bool.false_eq_true]
-        exact ih h
+    · rename_i hm
+      simp only [setFirst, hm, if_true, findIn, hpaMatches_set a k hm]
+    · rename_i hm
+      simp only [setFirst, hm, findIn, Bool.false_eq_true, if_false]
+      exact ih h
 
 theorem setFirst_idem (l : List HPA) (k : Nat) : setFirst k (setFirst k l) = setFirst k l := by
   induction l with
@@ -44,11 +43,30 @@ theorem setFirst_idem (l : List HPA) (k : Nat) : setFirst k (setFirst k l) = set
     · have hm' : hpaMatches a = false := by simpa using hm
       simp only [setFirst, hm', Bool.false_eq_true, if_false, ih]
 
-/-- a List that does not fail: `findHPA` does not depend on the other components of the fault -/
-theorem findHPA_noList (w : World) (f : Fault) (h2 : f.listV2 = false) (h1 : f.listV1 = false) :
-    findHPA w f = findHPA w noFault := by
+/-- without faults the lookup always answers -/
+theorem findHPA_noFault_val (w : World) : ∃ x, findHPA w noFault = .val x := by
   unfold findHPA findVer noFault
-  simp only [h2, h1]
+  simp only [Bool.false_eq_true, if_false]
+  cases findIn w.hpaV2 with
+  | some k => exact ⟨_, rfl⟩
+  | none => cases findIn w.hpaV1 <;> exact ⟨_, rfl⟩
+
+/-- a lookup that answers under List faults answers the same without them -/
+theorem findHPA_val_noFault (w : World) (f : Fault) (x : Option (Ver × Nat)) (h : findHPA w f = .val x) :
+    findHPA w noFault = .val x := by
+  unfold findHPA findVer noFault at *
+  simp only [Bool.false_eq_true, if_false]
+  cases h2 : f.listV2 with
+  | true => simp [h2] at h
+  | false =>
+    simp only [h2, Bool.false_eq_true, if_false] at h
+    cases hk : findIn w.hpaV2 with
+    | some k => simpa [hk] using h
+    | none =>
+      simp only [hk] at h ⊢
+      cases h1 : f.listV1 with
+      | true => simp [h1] at h
+      | false => simpa [h1] using h
 
 theorem findHPA_setHPA (w : World) (v : Ver) (k0 k : Nat) (h : findHPA w noFault = .val (some (v, k0))) :
     findHPA (setHPA w v k) noFault = .val (some (v, k)) := by
@@ -57,42 +75,39 @@ theorem findHPA_setHPA (w : World) (v : Ver) (k0 k : Nat) (h : findHPA w noFault
   cases v with
   | v2 =>
     simp only [setHPA]
-    split at h
-    · cases h
-    · rename_i k' hk
-      simp only [Out.val.injEq, Option.some.injEq, Prod.mk.injEq, true_and] at h
-      subst h
+    cases hk : findIn w.hpaV2 with
+    | some k' =>
+      simp only [hk, Lk.val.injEq, Option.some.injEq, Prod.mk.injEq, true_and] at h
       rw [findIn_setFirst _ _ k hk]
-    · split at h
-      · cases h
-      · simp only [Out.val.injEq, Option.some.injEq, Prod.mk.injEq] at h; exact absurd h.1 (by decide)
-      · cases h
+    | none =>
+      simp only [hk] at h
+      cases hk1 : findIn w.hpaV1 with
+      | some k' => simp [hk1] at h
+      | none => simp [hk1] at h
   | v1 =>
     simp only [setHPA]
-    split at h
-    · cases h
-    · simp only [Out.val.injEq, Option.some.injEq, Prod.mk.injEq] at h; exact absurd h.1 (by decide)
-    · rename_i hk2
-      split at h
-      · cases h
-      · rename_i k' hk
-        simp only [Out.val.injEq, Option.some.injEq, Prod.mk.injEq, true_and] at h
-        subst h
-        rw [findIn_setFirst _ _ k hk]
-      · cases h
+    cases hk : findIn w.hpaV2 with
+    | some k' => simp [hk] at h
+    | none =>
+      simp only [hk] at h ⊢
+      cases hk1 : findIn w.hpaV1 with
+      | some k' =>
+        simp only [hk1, Lk.val.injEq, Option.some.injEq, Prod.mk.injEq, true_and] at h
+        rw [findIn_setFirst _ _ k hk1]
+      | none => simp [hk1] at h
 
 /-! ### the write steps -/
 
 theorem disableHPA_spec (w : World) (f : Fault) (n : Nat) (w1 : World) (b : Bool) (n1 : Nat)
-    (h : disableHPA w f n = .val (w1, b, n1)) :
-    (w1 = w ∧ n1 = n ∧ (b = true → ∀ v k, findHPA w f = .val (some (v, k)) → k ≠ 0)) ∨
+    (h : disableHPA w f n = (w1, b, n1)) :
+    (w1 = w ∧ n1 = n ∧ (b = true → ∃ x, findHPA w f = .val x ∧ ∀ v k, x = some (v, k) → k ≠ 0)) ∨
     (n1 = n + 1 ∧ b = true ∧ canWrite f n = true ∧ ∃ v, findHPA w f = .val (some (v, 0)) ∧ w1 = setHPA w v 1) := by
   unfold disableHPA at h
   grind
 
 theorem restoreHPA_spec (w : World) (f : Fault) (n : Nat) (w1 : World) (b : Bool) (n1 : Nat)
-    (h : restoreHPA w f n = .val (w1, b, n1)) :
-    (w1 = w ∧ n1 = n ∧ (b = true → ∀ v k, findHPA w f = .val (some (v, k)) → k = 0)) ∨
+    (h : restoreHPA w f n = (w1, b, n1)) :
+    (w1 = w ∧ n1 = n ∧ (b = true → ∃ x, findHPA w f = .val x ∧ ∀ v k, x = some (v, k) → k = 0)) ∨
     (n1 = n + 1 ∧ b = true ∧ canWrite f n = true ∧ ∃ v k, k ≠ 0 ∧ findHPA w f = .val (some (v, k)) ∧ w1 = setHPA w v 0) := by
   unfold restoreHPA at h
   grind
@@ -111,7 +126,7 @@ theorem stableRSStep_spec (kind : Kind) (w : World) (f : Fault) (n : Nat) (w1 : 
   grind
 
 theorem disableHPA_wl (w : World) (f : Fault) (n : Nat) (w1 : World) (b : Bool) (n1 : Nat)
-    (h : disableHPA w f n = .val (w1, b, n1)) : w1.wl = w.wl := by
+    (h : disableHPA w f n = (w1, b, n1)) : w1.wl = w.wl := by
   rcases disableHPA_spec w f n w1 b n1 h with ⟨h1, _⟩ | ⟨_, _, _, v, _, h1⟩
   · rw [h1]
   · rw [h1, setHPA_wl]
@@ -120,13 +135,14 @@ theorem stableRSStep_wl (kind : Kind) (w : World) (f : Fault) (n : Nat) (w1 : Wo
     (h : stableRSStep kind w f n = (w1, b, n1)) : w1.wl = w.wl := by
   rcases stableRSStep_spec kind w f n w1 b n1 h with ⟨h1, _⟩ | ⟨_, _, _, h1⟩ <;> rw [h1]
 
-theorem finishHPA_spec (w : World) (f : Fault) (n : Nat) (out : CallOut) (h : finishHPA w f n = .val out) :
-    out.observed = none ∧
-    ((out.world = w ∧ out.writes = n ∧ (out.res = .ok ∨ out.res = .err) ∧
-        (out.res = .ok → ∀ v k, findHPA w f = .val (some (v, k)) → k = 0)) ∨
-     (out.writes = n + 1 ∧ out.res = .ok ∧ canWrite f n = true ∧
-        ∃ v k, k ≠ 0 ∧ findHPA w f = .val (some (v, k)) ∧ out.world = setHPA w v 0)) := by
-  unfold finishHPA at h
+theorem finishHPA_spec (w : World) (f : Fault) (n : Nat) :
+    (finishHPA w f n).observed = none ∧
+    (((finishHPA w f n).world = w ∧ (finishHPA w f n).writes = n ∧
+        ((finishHPA w f n).res = .ok ∨ (finishHPA w f n).res = .err) ∧
+        ((finishHPA w f n).res = .ok → ∃ x, findHPA w f = .val x ∧ ∀ v k, x = some (v, k) → k = 0)) ∨
+     ((finishHPA w f n).writes = n + 1 ∧ (finishHPA w f n).res = .ok ∧ canWrite f n = true ∧
+        ∃ v k, k ≠ 0 ∧ findHPA w f = .val (some (v, k)) ∧ (finishHPA w f n).world = setHPA w v 0)) := by
+  unfold finishHPA
   have := restoreHPA_spec w f n
   grind
 
@@ -147,7 +163,7 @@ def InitRS (kind : Kind) (br : BR) (f : Fault) (wl : Workload) (R : Int) (w1 : W
     ((b2 = false ∧ out = ⟨w2, .err, n2, none⟩) ∨ (b2 = true ∧ InitSet kind br f wl R w2 n2 out))
 
 def InitHPA (kind : Kind) (w : World) (br : BR) (f : Fault) (wl : Workload) (R : Int) (out : CallOut) : Prop :=
-  ∃ w1 b1 n1, disableHPA w f 0 = .val (w1, b1, n1) ∧
+  ∃ w1 b1 n1, disableHPA w f 0 = (w1, b1, n1) ∧
     ((b1 = false ∧ out = ⟨w1, .err, n1, none⟩) ∨ (b1 = true ∧ InitRS kind br f wl R w1 n1 out))
 
 def InitCases (kind : Kind) (w : World) (br : BR) (f : Fault) (out : CallOut) : Prop :=
@@ -180,7 +196,6 @@ theorem initialize_cases (kind : Kind) (w : World) (br : BR) (f : Fault) (out : 
           refine ⟨by simpa using hc, ?_⟩
           unfold InitHPA
           split at h
-          · cases h
           · rename_i w1 n1 hd
             exact ⟨w1, false, n1, hd, Or.inl ⟨rfl, by cases h; rfl⟩⟩
           · rename_i w1 n1 hd
@@ -277,12 +292,13 @@ theorem upgrade_cases (kind : Kind) (w : World) (br : BR) (f : Fault) (out : Cal
                 · rename_i hcw; right; right; left; exact ⟨hv', hlt, hcw, by cases h; rfl⟩
                 · rename_i hcw; right; right; right; exact ⟨hv', hlt, by simpa using hcw, by cases h; rfl⟩
 
+
 /-! ### inversion of `Finalize` -/
 
 /-- the tail `finishWait` -/
 def FinWait (kind : Kind) (wl d : Workload) (w1 : World) (f : Fault) (n : Nat) (out : CallOut) : Prop :=
   (waitStep kind wl d = .val false ∧ out = ⟨w1, .retry, n, none⟩) ∨
-  (waitStep kind wl d = .val true ∧ finishHPA w1 f n = .val out)
+  (waitStep kind wl d = .val true ∧ out = finishHPA w1 f n)
 
 theorem finishWait_cases (kind : Kind) (wl d : Workload) (w1 : World) (f : Fault) (n : Nat) (out : CallOut)
     (h : finishWait kind wl d w1 f n = .val out) : FinWait kind wl d w1 f n out := by
@@ -291,7 +307,7 @@ theorem finishWait_cases (kind : Kind) (wl d : Workload) (w1 : World) (f : Fault
   split at h
   · cases h
   · rename_i hw; left; exact ⟨hw, by cases h; rfl⟩
-  · rename_i hw; right; exact ⟨hw, h⟩
+  · rename_i hw; right; exact ⟨hw, by cases h; rfl⟩
 
 def FinalizeCases (kind : Kind) (w : World) (br : BR) (f : Fault) (out : CallOut) : Prop :=
   (f.get = true ∧ out = ⟨w, .err, 0, none⟩) ∨
@@ -304,8 +320,9 @@ def FinalizeCases (kind : Kind) (w : World) (br : BR) (f : Fault) (out : CallOut
           ((getSetting wl.saved = none ∧ out = ⟨w, .err, 0, none⟩) ∨
            (∃ s, getSetting wl.saved = some s ∧
              ((canWrite f 0 = false ∧ out = ⟨w, .err, 0, none⟩) ∨
-              (canWrite f 0 = true ∧
-                FinWait kind wl (finalizePatch kind s wl) { w with wl := some (finalizePatch kind s wl) } f 1 out)))))))))
+              (canWrite f 0 = true ∧ ∃ o,
+                FinWait kind wl (finalizePatch kind s wl) { w with wl := some (finalizePatch kind s wl) } f 1 o ∧
+                out = finishForget kind f o)))))))))
 
 theorem finalize_cases (kind : Kind) (w : World) (br : BR) (f : Fault) (out : CallOut)
     (h : cpFinalize kind w br f = .val out) : FinalizeCases kind w br f out := by
@@ -342,17 +359,68 @@ theorem finalize_cases (kind : Kind) (w : World) (br : BR) (f : Fault) (out : Ca
               · rename_i hcw; left; exact ⟨by simpa using hcw, by cases h; rfl⟩
               · rename_i hcw
                 right
-                exact ⟨by simpa using hcw, finishWait_cases _ _ _ _ _ _ _ h⟩
+                refine ⟨by simpa using hcw, ?_⟩
+                split at h
+                · cases h
+                · rename_i o ho
+                  exact ⟨o, finishWait_cases _ _ _ _ _ _ _ ho, by cases h; rfl⟩
 
 theorem waitStep_empty (kind : Kind) (wl : Workload) (hk : kind = .deployment) :
     waitStep kind wl emptyDeployment = .val true := by
   subst hk; rfl
 
+/-- the workload without its saved-settings annotation -/
+def forgetWl (wl : Workload) : Workload := { wl with saved := .none }
+
+theorem forget_wl (w : World) (wl : Workload) (h : w.wl = some wl) : (forget w).wl = some (forgetWl wl) := by
+  simp [forget, forgetWl, h]
+
+theorem forget_hpa (w : World) : (forget w).hpaV2 = w.hpaV2 ∧ (forget w).hpaV1 = w.hpaV1 ∧ (forget w).rss = w.rss :=
+  ⟨rfl, rfl, rfl⟩
+
+theorem forgetWl_finalizePatch_cs (s : Setting) (wl : Workload) :
+    forgetWl (finalizePatch .cloneSet s wl) = finalizePatch .cloneSet s wl := rfl
+
+/-- what the second patch of the Deployment control does to the outcome of the wait-and-restore tail -/
+theorem finishForget_spec (kind : Kind) (f : Fault) (o : CallOut) :
+    finishForget kind f o = o ∨
+    (kind = .deployment ∧ o.res = .ok ∧ canWrite f o.writes = true ∧
+      finishForget kind f o = ⟨forget o.world, .ok, o.writes + 1, none⟩) ∨
+    (kind = .deployment ∧ o.res = .ok ∧ canWrite f o.writes = false ∧
+      finishForget kind f o = ⟨o.world, .err, o.writes, none⟩) := by
+  cases kind
+  · by_cases hok : o.res = .ok
+    · by_cases hc : canWrite f o.writes = true
+      · right; left; exact ⟨rfl, hok, hc, by simp [finishForget, hok, hc]⟩
+      · have hc' : canWrite f o.writes = false := by simpa using hc
+        right; right; exact ⟨rfl, hok, hc', by simp [finishForget, hok, hc']⟩
+    · left; simp [finishForget, hok]
+  · left; rfl
+
+/-- if the outcome after the second patch is a success, the tail succeeded and (Deployment) the annotation is gone -/
+theorem finishForget_ok (kind : Kind) (f : Fault) (o : CallOut) (h : (finishForget kind f o).res = .ok) :
+    o.res = .ok ∧
+    ((kind = .cloneSet ∧ finishForget kind f o = o) ∨
+     (kind = .deployment ∧ (finishForget kind f o).world = forget o.world)) := by
+  rcases finishForget_spec kind f o with e | ⟨hk, hok, _, e⟩ | ⟨_, _, _, e⟩
+  · rw [e] at h
+    cases kind
+    · -- Deployment, tail succeeded, outcome unchanged: impossible (a success always leads to the second patch)
+      exfalso
+      by_cases hc : canWrite f o.writes = true
+      · have : (finishForget .deployment f o).writes = o.writes + 1 := by simp [finishForget, h, hc]
+        rw [e] at this; omega
+      · have hc' : canWrite f o.writes = false := by simpa using hc
+        have : (finishForget .deployment f o).res = .err := by simp [finishForget, h, hc']
+        rw [e, h] at this; cases this
+    · exact ⟨h, Or.inl ⟨rfl, e⟩⟩
+  · rw [e]; exact ⟨hok, Or.inr ⟨hk, rfl⟩⟩
+  · rw [e] at h; cases h
+
 /-! ### summaries -/
 
-theorem finishHPA_wl (w : World) (f : Fault) (n : Nat) (out : CallOut) (h : finishHPA w f n = .val out) :
-    out.world.wl = w.wl := by
-  rcases (finishHPA_spec w f n out h).2 with ⟨h1, _⟩ | ⟨_, _, _, v, k, _, _, h1⟩
+theorem finishHPA_wl (w : World) (f : Fault) (n : Nat) : (finishHPA w f n).world.wl = w.wl := by
+  rcases (finishHPA_spec w f n).2 with ⟨h1, _⟩ | ⟨_, _, _, v, k, _, _, h1⟩
   · rw [h1]
   · rw [h1, setHPA_wl]
 
@@ -374,40 +442,55 @@ theorem upgrade_world (kind : Kind) (w : World) (br : BR) (f : Fault) (out : Cal
       · subst ho; right; exact ⟨wl, R, e, hw, hR, h0, he, hv, hlt, rfl, rfl, rfl⟩
       · subst ho; left; exact ⟨rfl, rfl⟩
 
-/-- what `Finalize` does to the workload object: nothing, or the one restoring patch -/
+/-- the world after the wait-and-restore tail and the second patch: workload object as after the first patch, possibly
+    without the saved annotation -/
+theorem finishForget_wl (kind : Kind) (f : Fault) (o : CallOut) (wl' : Workload) (h : o.world.wl = some wl') :
+    (finishForget kind f o).world.wl = some wl' ∨ (finishForget kind f o).world.wl = some (forgetWl wl') := by
+  rcases finishForget_spec kind f o with e | ⟨_, _, _, e⟩ | ⟨_, _, _, e⟩
+  · left; rw [e]; exact h
+  · right; rw [e]; exact forget_wl _ _ h
+  · left; rw [e]; exact h
+
+theorem FinWait_wl (kind : Kind) (wl d : Workload) (w1 : World) (f : Fault) (n : Nat) (o : CallOut)
+    (h : FinWait kind wl d w1 f n o) : o.world.wl = w1.wl := by
+  rcases h with ⟨_, ho⟩ | ⟨_, ho⟩
+  · subst ho; rfl
+  · subst ho; exact finishHPA_wl _ _ _
+
+/-- what `Finalize` does to the workload object: nothing, the restoring patch, or the restoring patch and the removal
+    of the saved annotation -/
 theorem finalize_wl (kind : Kind) (w : World) (br : BR) (f : Fault) (out : CallOut)
     (h : cpFinalize kind w br f = .val out) :
     out.world.wl = w.wl ∨
     (∃ wl s, w.wl = some wl ∧ restored wl = false ∧ br.partitioned = false ∧ getSetting wl.saved = some s ∧
-      out.world.wl = some (finalizePatch kind s wl)) := by
+      (out.world.wl = some (finalizePatch kind s wl) ∨ out.world.wl = some (forgetWl (finalizePatch kind s wl)))) := by
   rcases finalize_cases kind w br f out h with ⟨_, ho⟩ | ⟨_, _, ho⟩ | ⟨wl, R, _, hw, _, hc⟩
   · subst ho; left; rfl
   · subst ho; left; rfl
   · rcases hc with ⟨_, ho⟩ | ⟨hp, hc⟩
     · subst ho; left; rfl
     · rcases hc with ⟨_, hfw⟩ | ⟨hr, hc⟩
-      · rcases hfw with ⟨_, ho⟩ | ⟨_, hfin⟩
-        · subst ho; left; rfl
-        · left; exact finishHPA_wl _ _ _ _ hfin
+      · left; exact FinWait_wl _ _ _ _ _ _ _ hfw
       · rcases hc with ⟨_, ho⟩ | ⟨s, hgs, hc⟩
         · subst ho; left; rfl
-        · rcases hc with ⟨_, ho⟩ | ⟨_, hfw⟩
+        · rcases hc with ⟨_, ho⟩ | ⟨_, o, hfw, ho⟩
           · subst ho; left; rfl
           · right
             refine ⟨wl, s, hw, hr, hp, hgs, ?_⟩
-            rcases hfw with ⟨_, ho⟩ | ⟨_, hfin⟩
-            · subst ho; rfl
-            · exact finishHPA_wl _ _ _ _ hfin
+            subst ho
+            exact finishForget_wl kind f o _ (FinWait_wl _ _ _ _ _ _ _ hfw)
 
-/-- a `Finalize` that reports success on an existing workload with `batchPartition` cleared went through the wait
-    and through `RestoreHPA` -/
+/-- a `Finalize` that reports success on an existing workload with `batchPartition` cleared went through the wait,
+    through `RestoreHPA` (outcome `o`, a success) and — after a restoring patch — through the removal of the saved
+    annotation -/
 theorem finalize_done (kind : Kind) (w : World) (br : BR) (f : Fault) (out : CallOut) (wl : Workload)
     (h : cpFinalize kind w br f = .val out) (hw : w.wl = some wl) (hp : br.partitioned = false) (hok : out.res = .ok) :
-    ∃ d w1 n,
-      ((restored wl = true ∧ d = emptyDeployment ∧ w1 = w ∧ n = 0) ∨
+    ∃ d w1 n o,
+      waitStep kind wl d = .val true ∧ o = finishHPA w1 f n ∧ o.res = .ok ∧
+      ((restored wl = true ∧ d = emptyDeployment ∧ w1 = w ∧ n = 0 ∧ out = o) ∨
        (restored wl = false ∧ ∃ s, getSetting wl.saved = some s ∧ d = finalizePatch kind s wl ∧
-          w1 = { w with wl := some d } ∧ n = 1)) ∧
-      waitStep kind wl d = .val true ∧ finishHPA w1 f n = .val out := by
+          w1 = { w with wl := some d } ∧ n = 1 ∧ out = finishForget kind f o ∧
+          out.world.wl = some (forgetWl d) ∧ out.world.hpaV2 = o.world.hpaV2 ∧ out.world.hpaV1 = o.world.hpaV1)) := by
   rcases finalize_cases kind w br f out h with ⟨_, ho⟩ | ⟨_, hn, _⟩ | ⟨wl', R, _, hw', _, hc⟩
   · subst ho; cases hok
   · rw [hw] at hn; cases hn
@@ -417,34 +500,46 @@ theorem finalize_done (kind : Kind) (w : World) (br : BR) (f : Fault) (out : Cal
     · rcases hc with ⟨hr, hfw⟩ | ⟨hr, hc⟩
       · rcases hfw with ⟨_, ho⟩ | ⟨hwt, hfin⟩
         · subst ho; cases hok
-        · exact ⟨emptyDeployment, w, 0, Or.inl ⟨hr, rfl, rfl, rfl⟩, hwt, hfin⟩
+        · exact ⟨emptyDeployment, w, 0, out, hwt, hfin, hok, Or.inl ⟨hr, rfl, rfl, rfl, rfl⟩⟩
       · rcases hc with ⟨_, ho⟩ | ⟨s, hgs, hc⟩
         · subst ho; cases hok
-        · rcases hc with ⟨_, ho⟩ | ⟨_, hfw⟩
+        · rcases hc with ⟨_, ho⟩ | ⟨_, o, hfw, ho⟩
           · subst ho; cases hok
-          · rcases hfw with ⟨_, ho⟩ | ⟨hwt, hfin⟩
-            · subst ho; cases hok
-            · exact ⟨finalizePatch kind s wl, _, 1, Or.inr ⟨hr, s, hgs, rfl, rfl, rfl⟩, hwt, hfin⟩
+          · subst ho
+            obtain ⟨hook, hkind⟩ := finishForget_ok kind f o hok
+            rcases hfw with ⟨_, ho⟩ | ⟨hwt, hfin⟩
+            · subst ho; cases hook
+            · refine ⟨finalizePatch kind s wl, _, 1, o, hwt, hfin, hook, Or.inr ⟨hr, s, hgs, rfl, rfl, rfl, rfl, ?_⟩⟩
+              have hwl : o.world.wl = some (finalizePatch kind s wl) := by rw [hfin]; exact finishHPA_wl _ _ _
+              rcases hkind with ⟨hk, e⟩ | ⟨_, e⟩
+              · subst hk
+                rw [e]
+                exact ⟨hwl, rfl, rfl⟩
+              · rw [e]
+                exact ⟨forget_wl _ _ hwl, rfl, rfl⟩
+
+
 
 /-! ## proofs of the property theorems (statements with their documentation: `RV.Props.CtlBlueGreenThms`) -/
 
-
-/-- a complete setting is a fixed point of `InitOriginalSetting` unless its `minReadySeconds` is the sentinel `0` -/
-theorem initSetting_complete (kind : Kind) (s : Setting) (wl : Workload) (hc : complete kind s = true)
-    (hz : s.minReadySeconds = 0 → wl.minReadySeconds = 0) : initSetting kind s wl = s := by
+/-- a complete setting is a fixed point of `InitOriginalSetting` (its `maxSurge` is present, so `minReadySeconds`
+    is never taken from the object) -/
+theorem initSetting_complete (kind : Kind) (s : Setting) (wl : Workload) (hc : complete kind s = true) :
+    initSetting kind s wl = s := by
   obtain ⟨mu, ms, mr, pd⟩ := s
   cases kind <;> cases mu <;> cases ms <;> cases pd <;>
-    simp [complete] at hc <;> simp [initSetting] <;> intro h0 <;> simp at hz <;> rw [h0, hz h0]
+    simp [complete] at hc <;> simp [initSetting, nothingSaved]
 
 theorem effSetting_complete (kind : Kind) (wl : Workload) : complete kind (effSetting kind wl) = true := by
   cases kind <;> simp [effSetting, initSetting, complete, emptySetting]
 
-/-- the restoring patch followed by a fresh read gives back a complete setting -/
+/-- the restoring patch followed by a fresh read gives back a complete setting (the saved annotation does not matter) -/
 theorem effSetting_finalizePatch (kind : Kind) (s : Setting) (wl : Workload) (hc : complete kind s = true) :
-    effSetting kind (finalizePatch kind s wl) = s := by
+    effSetting kind (forgetWl (finalizePatch kind s wl)) = s := by
   obtain ⟨mu, ms, mr, pd⟩ := s
   cases kind <;> cases mu <;> cases ms <;> cases pd <;>
-    simp [complete] at hc <;> simp [effSetting, initSetting, finalizePatch, emptySetting, ruSurge, ruUnavailable]
+    simp [complete] at hc <;>
+    simp [effSetting, initSetting, finalizePatch, forgetWl, emptySetting, ruSurge, ruUnavailable, nothingSaved]
 
 /-! ## C05 — the invariant of a release -/
 
@@ -475,8 +570,7 @@ theorem type_clause_expected (o : Orig) (t : SType)
     exact hg.symm
 
 theorem invWl_initPatch (kind : Kind) (o : Orig) (br : BR) (wl : Workload) (s : Setting)
-    (hc : complete kind o.setting = true) (hi : invWl kind o wl = true) (hgs : getSetting wl.saved = some s)
-    (hz : gSavedZero br wl = false) (hctl : controlled br wl = false) :
+    (hc : complete kind o.setting = true) (hi : invWl kind o wl = true) (hgs : getSetting wl.saved = some s) :
     invWl kind o (initPatch kind br (initSetting kind s wl) wl) = true := by
   have hsv' : (initPatch kind br (initSetting kind s wl) wl).saved = .some (initSetting kind s wl) := by cases kind <;> rfl
   rw [invWl_some kind o _ _ hsv']
@@ -496,15 +590,7 @@ theorem invWl_initPatch (kind : Kind) (o : Orig) (br : BR) (wl : Workload) (s : 
     rw [hsv] at hgs
     simp only [getSetting, Option.some.injEq] at hgs
     subst hgs
-    have hfix : initSetting kind s0 wl = s0 := by
-      apply initSetting_complete kind s0 wl (hi.1 ▸ hc)
-      intro h0
-      unfold gSavedZero at hz
-      rw [hsv] at hz
-      simp only [h0, decide_true, Bool.true_and, hctl, Bool.not_false, Bool.and_true, decide_eq_false_iff_not,
-        Decidable.not_not] at hz
-      exact hz
-    rw [hfix]
+    rw [initSetting_complete kind s0 wl (hi.1 ▸ hc)]
     refine ⟨hi.1, ?_⟩
     cases kind
     · exact type_clause_expected o _ hi.2
@@ -529,10 +615,13 @@ theorem invWl_upgradePatch (kind : Kind) (o : Orig) (wl : Workload) (e : IntOrPc
     · exact type_clause_expected o _ hi.2
     · exact hi.2
 
+/-- both stages of the restoration keep the invariant: the restoring patch (the Deployment still carries the saved
+    annotation) and the workload without the annotation -/
 theorem invWl_finalizePatch (kind : Kind) (o : Orig) (wl : Workload) (s : Setting)
     (hc : complete kind o.setting = true) (hi : invWl kind o wl = true) (hr : restored wl = false)
     (hgs : getSetting wl.saved = some s) :
-    invWl kind o (finalizePatch kind s wl) = true ∧ s = o.setting := by
+    invWl kind o (finalizePatch kind s wl) = true ∧ invWl kind o (forgetWl (finalizePatch kind s wl)) = true ∧
+    s = o.setting := by
   cases hsv : wl.saved with
   | none => simp [restored, hsv] at hr
   | bad => rw [invWl_bad kind o wl hsv] at hi; cases hi
@@ -542,21 +631,24 @@ theorem invWl_finalizePatch (kind : Kind) (o : Orig) (wl : Workload) (s : Settin
     simp only [getSetting, Option.some.injEq] at hgs
     subst hgs
     have heff := effSetting_finalizePatch kind s0 wl (hi.1 ▸ hc)
-    have hs : (finalizePatch kind s0 wl).saved = .none ∧ (finalizePatch kind s0 wl).ctl = .none ∧
-        (finalizePatch kind s0 wl).stype = wl.stype := by
+    have hf : (forgetWl (finalizePatch kind s0 wl)).saved = .none ∧ (forgetWl (finalizePatch kind s0 wl)).ctl = .none ∧
+        (forgetWl (finalizePatch kind s0 wl)).stype = wl.stype := by
       cases kind <;> exact ⟨rfl, rfl, rfl⟩
-    rw [invWl_none kind o _ hs.1, hs.2.2]
-    exact ⟨⟨⟨heff.trans hi.1, hs.2.1⟩, hi.2⟩, hi.1⟩
+    have h2 : invWl kind o (forgetWl (finalizePatch kind s0 wl)) = true := by
+      rw [invWl_none kind o _ hf.1, hf.2.2]
+      exact ⟨⟨heff.trans hi.1, hf.2.1⟩, hi.2⟩
+    refine ⟨?_, h2, hi.1⟩
+    cases kind
+    · have hsv' : (finalizePatch .deployment s0 wl).saved = .some s0 := hsv
+      rw [invWl_some _ o _ s0 hsv']
+      exact ⟨hi.1, hi.2⟩
+    · exact h2
 
 theorem inv_of_wl (kind : Kind) (o : Orig) (w w' : World) (h : w'.wl = w.wl) : inv kind o w' = inv kind o w := by
   unfold inv; rw [h]
 
-/-- **C05 (inductive step)** — every `Initialize`, `UpgradeBatch` and `Finalize`, under every API fault, preserves
-    the invariant "the saved annotation (or, when there is none, the workload itself) holds the user's original
-    settings" — for `Initialize` outside the known finding `savedMinReadyZero`. -/
-theorem inv_preserved_partial (kind : Kind) (op : Op) (o : Orig) (w : World) (br : BR) (f : Fault) (out : CallOut)
-    (h : call kind op w br f = .val out)
-    (hG : op = .init → ∀ wl, w.wl = some wl → gSavedZero br wl = false) :
+theorem inv_preserved (kind : Kind) (op : Op) (o : Orig) (w : World) (br : BR) (f : Fault) (out : CallOut)
+    (h : call kind op w br f = .val out) :
     invPreserved kind o w out = true := by
   unfold invPreserved
   split
@@ -566,11 +658,11 @@ theorem inv_preserved_partial (kind : Kind) (op : Op) (o : Orig) (w : World) (br
     refine ⟨hi.1, ?_⟩
     cases op with
     | init =>
-      rcases initialize_wl kind w br f out h with ⟨hw, _⟩ | ⟨wl, s, hw, hctl, hgs, _, hw'⟩
+      rcases initialize_wl kind w br f out h with ⟨hw, _⟩ | ⟨wl, s, hw, _, hgs, _, hw'⟩
       · rw [hw]; exact hi.2
       · rw [hw']
         rw [hw] at hi
-        exact invWl_initPatch kind o br wl s hi.1 hi.2 hgs (hG rfl wl hw) hctl
+        exact invWl_initPatch kind o br wl s hi.1 hi.2 hgs
     | upgrade =>
       rcases upgrade_world kind w br f out h with ⟨hw, _⟩ | ⟨wl, R, e, hw, _, _, _, hv, _, _, _, hw'⟩
       · rw [hw]; exact hi.2
@@ -580,14 +672,13 @@ theorem inv_preserved_partial (kind : Kind) (op : Op) (o : Orig) (w : World) (br
     | fin =>
       rcases finalize_wl kind w br f out h with hw | ⟨wl, s, hw, hr, _, hgs, hw'⟩
       · rw [hw]; exact hi.2
-      · rw [hw']
-        rw [hw] at hi
-        exact (invWl_finalizePatch kind o wl s hi.1 hi.2 hr hgs).1
+      · rw [hw] at hi
+        have := invWl_finalizePatch kind o wl s hi.1 hi.2 hr hgs
+        rcases hw' with hw' | hw' <;> rw [hw']
+        · exact this.1
+        · exact this.2.1
   · rfl
 
-/-- **C05 (round trip, first half)** — `Initialize` of a workload that carries no saved annotation records exactly
-    the workload's own minReadySeconds / maxSurge / maxUnavailable / progressDeadlineSeconds (absent fields with
-    the API defaults) and takes control, for every workload, HPA constellation and fault. -/
 theorem init_saves_original (kind : Kind) (w : World) (br : BR) (f : Fault) (out : CallOut)
     (h : cpInitialize kind w br f = .val out) : initSavesOriginal kind w br out = true := by
   unfold initSavesOriginal
@@ -623,40 +714,32 @@ theorem finalizeDone_iff (w : World) (br : BR) (out : CallOut) :
   | none => simp
   | some wl => simp [and_assoc]
 
-/-- the facts about a successful, releasing `Finalize` every clause below starts from -/
+/-- the facts about a successful, releasing `Finalize` every clause below starts from: `o` is the outcome of
+    `RestoreHPA` on world `w1`, `d` the object the wait was evaluated on -/
 theorem finalize_done_facts (kind : Kind) (w : World) (br : BR) (f : Fault) (out : CallOut)
     (h : cpFinalize kind w br f = .val out) (hd : finalizeDone w br out = true) :
-    ∃ wl d w1 n, w.wl = some wl ∧ wl.deleting = false ∧
+    ∃ wl d w1 n o, w.wl = some wl ∧ wl.deleting = false ∧
+      waitStep kind wl d = .val true ∧ o = finishHPA w1 f n ∧ o.res = .ok ∧
+      out.world.hpaV2 = o.world.hpaV2 ∧ out.world.hpaV1 = o.world.hpaV1 ∧
       ((wl.saved = .none ∧ d = emptyDeployment ∧ w1 = w ∧ n = 0 ∧ out.world.wl = some wl) ∨
        (restored wl = false ∧ ∃ s, getSetting wl.saved = some s ∧ d = finalizePatch kind s wl ∧
-          w1 = { w with wl := some d } ∧ n = 1 ∧ out.world.wl = some d)) ∧
-      waitStep kind wl d = .val true ∧ finishHPA w1 f n = .val out := by
+          w1 = { w with wl := some d } ∧ n = 1 ∧ out.world.wl = some (forgetWl d))) := by
   obtain ⟨hok, hp, wl, hw, hdel⟩ := (finalizeDone_iff w br out).1 hd
-  obtain ⟨d, w1, n, hpath, hwait, hfin⟩ := finalize_done kind w br f out wl h hw hp hok
-  refine ⟨wl, d, w1, n, hw, hdel, ?_, hwait, hfin⟩
-  have hwl := finishHPA_wl w1 f n out hfin
-  rcases hpath with ⟨hr, hd', hw1, hn⟩ | ⟨hr, s, hgs, hd', hw1, hn⟩
-  · left
-    have hs : wl.saved = .none := by
+  obtain ⟨d, w1, n, o, hwait, ho, hook, hpath⟩ := finalize_done kind w br f out wl h hw hp hok
+  rcases hpath with ⟨hr, hd', hw1, hn, hout⟩ | ⟨hr, s, hgs, hd', hw1, hn, _, hwl, h2, h1⟩
+  · have hs : wl.saved = .none := by
       simp only [restored, hdel, Bool.false_or, decide_eq_true_eq] at hr; exact hr
-    subst hw1
-    exact ⟨hs, hd', rfl, hn, hwl.trans hw⟩
-  · right
-    subst hw1
-    exact ⟨hr, s, hgs, hd', rfl, hn, hwl⟩
+    refine ⟨wl, d, w1, n, o, hw, hdel, hwait, ho, hook, by rw [hout], by rw [hout], Or.inl ⟨hs, hd', hw1, hn, ?_⟩⟩
+    rw [hout, ho, finishHPA_wl, hw1]; exact hw
+  · exact ⟨wl, d, w1, n, o, hw, hdel, hwait, ho, hook, h2, h1, Or.inr ⟨hr, s, hgs, hd', hw1, hn, hwl⟩⟩
 
-/-- **C05 `finalize_restores_original` (one step, full strength)** — for every workload, saved setting, HPA
-    constellation and fault: a `Finalize` that reports success with `batchPartition` cleared, from a world that
-    satisfies the release invariant, leaves the workload with exactly the user's original minReadySeconds,
-    maxSurge, maxUnavailable and progressDeadlineSeconds and with neither the saved-settings nor the control
-    annotation. -/
 theorem finalize_restores_original_step (kind : Kind) (o : Orig) (w : World) (br : BR) (f : Fault) (out : CallOut)
     (h : cpFinalize kind w br f = .val out) : finalizeRestores kind o w br out = true := by
   unfold finalizeRestores
   split
   · rename_i hc
     obtain ⟨hi, hd⟩ := hc
-    obtain ⟨wl, d, w1, n, hw, _, hpath, _, _⟩ := finalize_done_facts kind w br f out h hd
+    obtain ⟨wl, d, w1, n, oo, hw, _, _, _, _, _, _, hpath⟩ := finalize_done_facts kind w br f out h hd
     unfold inv at hi
     rw [hw] at hi
     simp only [Bool.and_eq_true] at hi
@@ -666,14 +749,12 @@ theorem finalize_restores_original_step (kind : Kind) (o : Orig) (w : World) (br
       simp only [decide_eq_true_eq]
       exact ⟨hs, this.1.2, this.1.1⟩
     · rw [hout, hd']
-      obtain ⟨_, hso⟩ := invWl_finalizePatch kind o wl s hi.1 hi.2 hr hgs
+      obtain ⟨_, _, hso⟩ := invWl_finalizePatch kind o wl s hi.1 hi.2 hr hgs
       have heff := effSetting_finalizePatch kind s wl (hso ▸ hi.1)
       simp only [decide_eq_true_eq]
       refine ⟨?_, ?_, heff.trans hso⟩ <;> cases kind <;> rfl
   · rfl
 
-/-- **C05 (strategy type, partial)** — … and with the original strategy type, outside the known finding
-    `origRecreate` (a Deployment whose original type was not `RollingUpdate`). -/
 theorem finalize_restores_type_partial (kind : Kind) (o : Orig) (w : World) (br : BR) (f : Fault) (out : CallOut)
     (h : cpFinalize kind w br f = .val out) (hG : gOrigType kind o = false) :
     finalizeRestoresType kind o w br out = true := by
@@ -681,7 +762,7 @@ theorem finalize_restores_type_partial (kind : Kind) (o : Orig) (w : World) (br 
   split
   · rename_i hc
     obtain ⟨hi, hd⟩ := hc
-    obtain ⟨wl, d, w1, n, hw, _, hpath, _, _⟩ := finalize_done_facts kind w br f out h hd
+    obtain ⟨wl, d, w1, n, oo, hw, _, _, _, _, _, _, hpath⟩ := finalize_done_facts kind w br f out h hd
     unfold inv at hi
     rw [hw] at hi
     simp only [Bool.and_eq_true] at hi
@@ -700,37 +781,38 @@ theorem finalize_restores_type_partial (kind : Kind) (o : Orig) (w : World) (br 
 
 theorem findHPA_wl_irrel (w : World) (x : Option Workload) (f : Fault) : findHPA { w with wl := x } f = findHPA w f := rfl
 
-/-- **C05 (HPA, partial)** — … and the HPA that `findHPAForWorkload` associates with the workload targets it again
-    (its `scaleTargetRef.name` carries no disabling suffix), outside the known finding `hpaListFault` (a List of
-    HPAs failing in that very call is swallowed). -/
-theorem finalize_restores_hpa_partial (kind : Kind) (w : World) (br : BR) (f : Fault) (out : CallOut)
-    (h : cpFinalize kind w br f = .val out) (hG : gListFault f = false) :
+theorem findHPA_congr (w w' : World) (f : Fault) (h2 : w'.hpaV2 = w.hpaV2) (h1 : w'.hpaV1 = w.hpaV1) :
+    findHPA w' f = findHPA w f := by
+  unfold findHPA; rw [h2, h1]
+
+/-- after a successful `RestoreHPA` the HPA found without faults carries no suffix -/
+theorem finishHPA_ok_restored (w : World) (f : Fault) (n : Nat) (hok : (finishHPA w f n).res = .ok) :
+    hpaRestored (finishHPA w f n).world = true := by
+  unfold hpaRestored
+  rcases (finishHPA_spec w f n).2 with ⟨hw1, _, _, hall⟩ | ⟨_, _, _, v, k, _, hf, hw1⟩
+  · rw [hw1]
+    obtain ⟨x, hx, hk⟩ := hall hok
+    rw [findHPA_val_noFault w f x hx]
+    cases x with
+    | none => rfl
+    | some p => obtain ⟨v, k⟩ := p; simp only [decide_eq_true_eq]; exact hk v k rfl
+  · rw [hw1, findHPA_setHPA w v k 0 (findHPA_val_noFault w f _ hf)]
+    rfl
+
+theorem finalize_restores_hpa (kind : Kind) (w : World) (br : BR) (f : Fault) (out : CallOut)
+    (h : cpFinalize kind w br f = .val out) :
     finalizeRestoresHPA w br out = true := by
   unfold finalizeRestoresHPA
   split
   · rename_i hd
-    obtain ⟨hok, _⟩ := (finalizeDone_iff w br out).1 hd
-    obtain ⟨wl, d, w1, n, hw, _, hpath, _, hfin⟩ := finalize_done_facts kind w br f out h hd
-    simp only [gListFault, Bool.or_eq_false_iff] at hG
-    have hnl : ∀ w', findHPA w' f = findHPA w' noFault := fun w' => findHPA_noList w' f hG.1 hG.2
-    unfold hpaRestored
-    rcases (finishHPA_spec w1 f n out hfin).2 with ⟨hw1, _, _, hall⟩ | ⟨_, _, _, v, k, _, hf, hw1⟩
-    · rw [hw1]
-      have := hall hok
-      rw [hnl] at this
-      split
-      · rename_i v k hf; simp only [decide_eq_true_eq]; exact this v k hf
-      · rfl
-    · rw [hw1]
-      rw [hnl] at hf
-      rw [findHPA_setHPA w1 v k 0 hf]
-      rfl
+    obtain ⟨wl, d, w1, n, oo, _, _, _, ho, hook, h2, h1, _⟩ := finalize_done_facts kind w br f out h hd
+    have : hpaRestored out.world = hpaRestored oo.world := by
+      unfold hpaRestored; rw [findHPA_congr oo.world out.world noFault h2 h1]
+    rw [this, ho]
+    rw [ho] at hook
+    exact finishHPA_ok_restored w1 f n hook
   · rfl
 
-/-- **C05 (release, partial)** — … and the workload is handed back to its own controller (Deployment un-paused and
-    without the stable-revision label; CloneSet without partition), outside the known findings
-    `deployFinalizeRetry` (a Deployment that carries no saved annotation is not patched at all) and
-    `csPartitionKept` (the CloneSet `Finalize` never clears the partition). -/
 theorem finalize_releases_partial (kind : Kind) (w : World) (br : BR) (f : Fault) (out : CallOut)
     (h : cpFinalize kind w br f = .val out)
     (hG : ∀ wl, w.wl = some wl → gRestoredDeploy kind wl = false ∧ gCsPartition kind wl = false) :
@@ -738,7 +820,7 @@ theorem finalize_releases_partial (kind : Kind) (w : World) (br : BR) (f : Fault
   unfold finalizeReleases
   split
   · rename_i hd
-    obtain ⟨wl, d, w1, n, hw, _, hpath, _, _⟩ := finalize_done_facts kind w br f out h hd
+    obtain ⟨wl, d, w1, n, oo, hw, _, _, _, _, _, _, hpath⟩ := finalize_done_facts kind w br f out h hd
     obtain ⟨hg1, hg2⟩ := hG wl hw
     rcases hpath with ⟨hs, _, _, _, hout⟩ | ⟨_, s, _, hd', _, _, hout⟩
     · rw [hout]
@@ -753,7 +835,7 @@ theorem finalize_releases_partial (kind : Kind) (w : World) (br : BR) (f : Fault
       cases kind
       · rfl
       · simp only [gCsPartition, decide_true, Bool.true_and] at hg2
-        simp only [finalizePatch]
+        simp only [finalizePatch, forgetWl]
         cases hp : wl.partition with
         | none => rfl
         | some p => rw [hp] at hg2; cases hg2
@@ -761,10 +843,8 @@ theorem finalize_releases_partial (kind : Kind) (w : World) (br : BR) (f : Fault
 
 /-! ## C06 / C11 — fault-safety of the single calls -/
 
-/-- **C06 / C11 (partial)** — a `Finalize` that reports success (with `batchPartition` cleared, on an existing
-    workload) has evaluated its wait condition — every pod updated and ready, `maxUnavailable` respected — on the
-    workload as it is after the call; outside the known finding `deployFinalizeRetry` (the Deployment control on an
-    object without saved annotation evaluates the wait on an empty object). -/
+theorem waitAll_forget (d : Workload) : waitAllUpdatedAndReady (forgetWl d) = waitAllUpdatedAndReady d := rfl
+
 theorem finalize_done_means_ready_partial (kind : Kind) (w : World) (br : BR) (f : Fault) (out : CallOut)
     (h : cpFinalize kind w br f = .val out)
     (hG : ∀ wl, w.wl = some wl → gRestoredDeploy kind wl = false) :
@@ -772,7 +852,7 @@ theorem finalize_done_means_ready_partial (kind : Kind) (w : World) (br : BR) (f
   unfold finalizeDoneMeansReady
   split
   · rename_i hd
-    obtain ⟨wl, d, w1, n, hw, _, hpath, hwait, _⟩ := finalize_done_facts kind w br f out h hd
+    obtain ⟨wl, d, w1, n, oo, hw, _, hwait, _, _, _, _, hpath⟩ := finalize_done_facts kind w br f out h hd
     have hg1 := hG wl hw
     rcases hpath with ⟨hs, _, _, _, hout⟩ | ⟨_, s, _, hd', _, _, hout⟩
     · rw [hout]
@@ -784,17 +864,13 @@ theorem finalize_done_means_ready_partial (kind : Kind) (w : World) (br : BR) (f
       subst hd'
       cases kind
       · simp only [waitStep] at hwait
-        simp only [readyNow, hwait]
+        simp only [readyNow, waitAll_forget, hwait]
       · simp only [waitStep, Out.val.injEq] at hwait
         exact hwait
   · rfl
 
-/-- **C06 (partial)** — `InitOriginalSetting` never overwrites what an earlier `Initialize` saved: whatever the call
-    does, every field present in the saved annotation — and its `minReadySeconds` — is still there afterwards;
-    outside the known finding `savedMinReadyZero`. -/
-theorem init_keeps_saved_partial (kind : Kind) (w : World) (br : BR) (f : Fault) (out : CallOut)
-    (h : cpInitialize kind w br f = .val out)
-    (hG : ∀ wl, w.wl = some wl → gSavedZero br wl = false) :
+theorem init_keeps_saved (kind : Kind) (w : World) (br : BR) (f : Fault) (out : CallOut)
+    (h : cpInitialize kind w br f = .val out) :
     initKeepsSaved w out = true := by
   unfold initKeepsSaved
   rcases initialize_wl kind w br f out h with ⟨hw, _⟩ | ⟨wl, s, hw, hctl, hgs, _, hw'⟩
@@ -816,10 +892,6 @@ theorem init_keeps_saved_partial (kind : Kind) (w : World) (br : BR) (f : Fault)
       rw [hs] at hgs
       simp only [getSetting, Option.some.injEq] at hgs
       subst hgs
-      have hz := hG wl hw
-      unfold gSavedZero at hz
-      rw [hs] at hz
-      simp only [hctl, Bool.not_false, Bool.and_true, Bool.and_eq_false_iff, decide_eq_false_iff_not, Decidable.not_not] at hz
       have hsv : (initPatch kind br (initSetting kind s0 wl) wl).saved = .some (initSetting kind s0 wl) := by cases kind <;> rfl
       rw [hsv]
       simp only [Bool.and_eq_true, Bool.or_eq_true, decide_eq_true_eq]
@@ -828,18 +900,29 @@ theorem init_keeps_saved_partial (kind : Kind) (w : World) (br : BR) (f : Fault)
       · cases ms <;> cases kind <;> simp [initSetting]
       · cases mu <;> cases kind <;> simp [initSetting]
       · cases pd <;> cases kind <;> simp [initSetting]
-      · simp only at hz
-        have key : (if mr = 0 then wl.minReadySeconds else mr) = mr := by
+      · have key : (if mr = 0 ∧ nothingSaved ⟨mu, ms, mr, pd⟩ = true then wl.minReadySeconds else mr) = mr ∨
+            (nothingSaved ⟨mu, ms, mr, pd⟩ = true ∧ mr = 0) := by
           split
-          · rename_i h0
-            rcases hz with hz | hz
-            · exact absurd h0 hz
-            · rw [hz, h0]
-          · rfl
+          · rename_i hc; right; exact ⟨hc.2, hc.1⟩
+          · left; rfl
         cases kind <;> exact key
 
-/-- **C06** — for every call, world and fault: a call that reports no successful write has left the whole object
-    store (workload, ReplicaSets, every HPA) exactly as it was. -/
+/-- the wait-and-restore tail writes at least what was written before it, and nothing more only if the world is as before -/
+theorem finishHPA_writes (w : World) (f : Fault) (n : Nat) :
+    ((finishHPA w f n).writes = n ∧ (finishHPA w f n).world = w) ∨ (finishHPA w f n).writes = n + 1 := by
+  rcases (finishHPA_spec w f n).2 with ⟨e, hn, _⟩ | ⟨hn, _⟩
+  · left; exact ⟨hn, e⟩
+  · right; exact hn
+
+theorem FinWait_writes (kind : Kind) (wl d : Workload) (w1 : World) (f : Fault) (n : Nat) (o : CallOut)
+    (h : FinWait kind wl d w1 f n o) : (o.writes = n ∧ o.world = w1) ∨ o.writes = n + 1 := by
+  rcases h with ⟨_, ho⟩ | ⟨_, ho⟩
+  · subst ho; left; exact ⟨rfl, rfl⟩
+  · subst ho; exact finishHPA_writes w1 f n
+
+theorem finishForget_writes (kind : Kind) (f : Fault) (o : CallOut) : o.writes ≤ (finishForget kind f o).writes := by
+  rcases finishForget_spec kind f o with e | ⟨_, _, _, e⟩ | ⟨_, _, _, e⟩ <;> rw [e] <;> simp
+
 theorem no_write_no_change (kind : Kind) (op : Op) (w : World) (br : BR) (f : Fault) (out : CallOut)
     (h : call kind op w br f = .val out) : noWriteNoChange w out = true := by
   unfold noWriteNoChange
@@ -885,33 +968,21 @@ theorem no_write_no_change (kind : Kind) (op : Op) (w : World) (br : BR) (f : Fa
       · subst ho; rfl
       · rcases hc with ⟨_, ho⟩ | ⟨_, hc⟩
         · subst ho; rfl
-        · have fin0 : ∀ w1 n, n ≠ 0 → finishHPA w1 f n = .val out → False := by
-            intro w1 n hn hf
-            rcases (finishHPA_spec w1 f n out hf).2 with ⟨_, e, _⟩ | ⟨e, _⟩ <;> omega
-          rcases hc with ⟨_, hfw⟩ | ⟨_, hc⟩
-          · rcases hfw with ⟨_, ho⟩ | ⟨_, hfin⟩
-            · subst ho; rfl
-            · rcases (finishHPA_spec w f 0 out hfin).2 with ⟨e, _⟩ | ⟨e, _⟩
-              · exact e
-              · omega
+        · rcases hc with ⟨_, hfw⟩ | ⟨_, hc⟩
+          · rcases FinWait_writes _ _ _ _ _ _ _ hfw with ⟨_, e⟩ | e
+            · exact e
+            · omega
           · rcases hc with ⟨_, ho⟩ | ⟨s, _, hc⟩
             · subst ho; rfl
-            · rcases hc with ⟨_, ho⟩ | ⟨_, hfw⟩
+            · rcases hc with ⟨_, ho⟩ | ⟨_, o, hfw, ho⟩
               · subst ho; rfl
-              · rcases hfw with ⟨_, ho⟩ | ⟨_, hfin⟩
-                · subst ho; simp at h0
-                · exact absurd hfin (fun hf => fin0 _ 1 (by decide) hf)
+              · exfalso
+                have h1 := finishForget_writes kind f o
+                rw [← ho, h0] at h1
+                rcases FinWait_writes _ _ _ _ _ _ _ hfw with ⟨e, _⟩ | e <;> omega
   · rfl
 
 /-! ## C05 — whole releases -/
-
-
-
-
-
-
-
-
 
 theorem effSetting_status (kind : Kind) (wl : Workload) (st : Status) :
     effSetting kind { wl with status := st } = effSetting kind wl := by
@@ -922,8 +993,7 @@ theorem effSetting_replicas (kind : Kind) (wl : Workload) (r : Option Int) :
   cases kind <;> rfl
 
 theorem inv_applyEv (kind : Kind) (o : Orig) (w w' : World) (e : Ev)
-    (hi : inv kind o w = true) (he : applyEv kind w e = some w')
-    (hg : ∀ br f, e = .call .init br f → ∀ wl, w.wl = some wl → gSavedZero br wl = false) :
+    (hi : inv kind o w = true) (he : applyEv kind w e = some w') :
     inv kind o w' = true := by
   cases e with
   | call op br f =>
@@ -932,7 +1002,7 @@ theorem inv_applyEv (kind : Kind) (o : Orig) (w w' : World) (e : Ev)
     · rename_i out hc
       simp only [Option.some.injEq] at he
       subst he
-      have := inv_preserved_partial kind op o w br f out hc (by intro hop wl hw; subst hop; exact hg br f rfl wl hw)
+      have := inv_preserved kind op o w br f out hc
       unfold invPreserved at this
       simp only [hi, if_true] at this
       exact this
@@ -962,33 +1032,19 @@ theorem inv_applyEv (kind : Kind) (o : Orig) (w w' : World) (e : Ev)
       simp only [effSetting_replicas]
       exact hi
 
-/-- **C05 (invariant over histories)** — along every finite history of control-plane calls (any operation order,
-    any plan / batch / partition / BatchRelease UID, any API fault in any attempt), status changes and scalings,
-    the release invariant holds at every point — outside the known finding `savedMinReadyZero`. -/
-theorem inv_run_partial (kind : Kind) (o : Orig) (evs : List Ev) (w w' : World)
-    (hi : inv kind o w = true) (hg : guardFree kind w evs = true) (hr : run kind w evs = some w') :
+theorem inv_run (kind : Kind) (o : Orig) (evs : List Ev) (w w' : World)
+    (hi : inv kind o w = true) (hr : run kind w evs = some w') :
     inv kind o w' = true := by
   induction evs generalizing w with
   | nil => simp only [run, Option.some.injEq] at hr; subst hr; exact hi
   | cons e t ih =>
     unfold run at hr
-    unfold guardFree at hg
     cases he : applyEv kind w e with
     | none => rw [he] at hr; cases hr
     | some w1 =>
-      rw [he] at hr hg
-      simp only [Bool.and_eq_true] at hg
-      apply ih w1 _ hg.2 hr
-      apply inv_applyEv kind o w w1 e hi he
-      intro br f hee wl hw
-      subst hee
-      have := hg.1
-      simp only [hw, Bool.not_eq_true'] at this
-      exact this
+      rw [he] at hr
+      exact ih w1 (inv_applyEv kind o w w1 e hi he) hr
 
-
-
-/-- a workload that carries neither annotation satisfies the invariant for its own settings -/
 theorem inv_fresh (kind : Kind) (w : World) (wl : Workload) (hw : w.wl = some wl)
     (hs : wl.saved = .none) (hc : wl.ctl = .none) : inv kind (origOf kind wl) w = true := by
   unfold inv
@@ -998,20 +1054,14 @@ theorem inv_fresh (kind : Kind) (w : World) (wl : Workload) (hw : w.wl = some wl
   rw [invWl_none kind _ wl hs]
   exact ⟨⟨rfl, hc⟩, Or.inr rfl⟩
 
-/-- **C05 `finalize_restores_original`** — take any workload without rollout annotations, any HPAs and
-    ReplicaSets; run any history `initialize ; (upgradeBatch | initialize | finalize)*` in any order, with API
-    faults after any write of any attempt, status changes and scalings in between (and no `Initialize` inside the
-    known finding `savedMinReadyZero`).  Whenever afterwards a `Finalize` — under any fault — reports success with
-    `batchPartition` cleared, the workload has exactly the minReadySeconds, maxSurge, maxUnavailable and
-    progressDeadlineSeconds it started with and neither the saved-settings nor the control annotation. -/
 theorem finalize_restores_original (kind : Kind) (w0 : World) (wl0 : Workload) (evs : List Ev) (w : World)
     (br : BR) (f : Fault) (out : CallOut)
     (hw0 : w0.wl = some wl0) (hs0 : wl0.saved = .none) (hc0 : wl0.ctl = .none)
-    (hg : guardFree kind w0 evs = true) (hr : run kind w0 evs = some w)
+    (hr : run kind w0 evs = some w)
     (hfin : cpFinalize kind w br f = .val out) (hd : finalizeDone w br out = true) :
     ∃ wl', out.world.wl = some wl' ∧ wl'.saved = .none ∧ wl'.ctl = .none ∧
       effSetting kind wl' = effSetting kind wl0 := by
-  have hi := inv_run_partial kind (origOf kind wl0) evs w0 w (inv_fresh kind w0 wl0 hw0 hs0 hc0) hg hr
+  have hi := inv_run kind (origOf kind wl0) evs w0 w (inv_fresh kind w0 wl0 hw0 hs0 hc0) hr
   have := finalize_restores_original_step kind (origOf kind wl0) w br f out hfin
   unfold finalizeRestores at this
   simp only [hi, hd, and_self, if_true] at this
@@ -1024,81 +1074,10 @@ theorem finalize_restores_original (kind : Kind) (w0 : World) (wl0 : Workload) (
 
 /-! ## C09 — panics, and C05 liveness of the retry -/
 
-theorem findIn_noPanic (l : List HPA) (h : l.any (fun h => h.av = .absent) = false) : findIn l ≠ .panic := by
-  induction l with
-  | nil => simp [findIn]
-  | cons a t ih =>
-    simp only [List.any_cons, Bool.or_eq_false_iff, decide_eq_false_iff_not] at h
-    unfold findIn
-    simp only [h.1, if_false]
-    split
-    · simp
-    · exact ih h.2
-
 theorem Out.exists_of_ne_panic {α : Type} (o : Out α) (h : o ≠ .panic) : ∃ a, o = .val a := by
   cases o with
   | val a => exact ⟨a, rfl⟩
   | panic => exact absurd rfl h
-
-theorem findVer_noPanic (l : List HPA) (b : Bool) (h : l.any (fun h => h.av = .absent) = false) :
-    findVer l b ≠ .panic := by
-  unfold findVer
-  cases b
-  · simpa using findIn_noPanic l h
-  · simp
-
-theorem findHPA_noPanic (w : World) (f : Fault) (h : gNoApiVersion w = false) : findHPA w f ≠ .panic := by
-  simp only [gNoApiVersion, Bool.or_eq_false_iff] at h
-  unfold findHPA
-  cases h2 : findVer w.hpaV2 f.listV2 with
-  | panic => exact absurd h2 (findVer_noPanic _ _ h.1)
-  | val o2 =>
-    cases o2 with
-    | some k => simp
-    | none =>
-      simp only []
-      cases h1 : findVer w.hpaV1 f.listV1 with
-      | panic => exact absurd h1 (findVer_noPanic _ _ h.2)
-      | val o1 => cases o1 <;> simp
-
-theorem disableHPA_noPanic (w : World) (f : Fault) (n : Nat) (h : gNoApiVersion w = false) :
-    disableHPA w f n ≠ .panic := by
-  unfold disableHPA
-  cases hf : findHPA w f with
-  | panic => exact absurd hf (findHPA_noPanic w f h)
-  | val o =>
-    cases o with
-    | none => simp
-    | some p =>
-      obtain ⟨v, k⟩ := p
-      simp only []
-      split
-      · simp
-      · split <;> simp
-
-theorem restoreHPA_noPanic (w : World) (f : Fault) (n : Nat) (h : gNoApiVersion w = false) :
-    restoreHPA w f n ≠ .panic := by
-  unfold restoreHPA
-  cases hf : findHPA w f with
-  | panic => exact absurd hf (findHPA_noPanic w f h)
-  | val o =>
-    cases o with
-    | none => simp
-    | some p =>
-      obtain ⟨v, k⟩ := p
-      simp only []
-      split
-      · simp
-      · split <;> simp
-
-theorem finishHPA_noPanic (w : World) (f : Fault) (n : Nat) (h : gNoApiVersion w = false) :
-    finishHPA w f n ≠ .panic := by
-  unfold finishHPA
-  cases hr : restoreHPA w f n with
-  | panic => exact absurd hr (restoreHPA_noPanic w f n h)
-  | val r =>
-    obtain ⟨w1, b, n1⟩ := r
-    cases b <;> simp
 
 theorem deployMaxUnavailable_noPanic (d : Workload) (R : Int) (ru : RU) (hR : d.replicas = some R) (hru : d.ru = some ru) :
     deployMaxUnavailable d ≠ .panic := by
@@ -1130,20 +1109,14 @@ theorem waitStep_noPanic_patched (kind : Kind) (wl : Workload) (s : Setting) (hR
   · simp [waitStep]
 
 theorem finishWait_noPanic (kind : Kind) (wl d : Workload) (w1 : World) (f : Fault) (n : Nat)
-    (hw : waitStep kind wl d ≠ .panic) (h : gNoApiVersion w1 = false) : finishWait kind wl d w1 f n ≠ .panic := by
+    (hw : waitStep kind wl d ≠ .panic) : finishWait kind wl d w1 f n ≠ .panic := by
   unfold finishWait
   cases hb : waitStep kind wl d with
   | panic => exact absurd hb hw
-  | val b =>
-    cases b
-    · simp
-    · exact finishHPA_noPanic w1 f n h
+  | val b => cases b <;> simp
 
-/-- **C09 (partial)** — for every world, BatchRelease and fault: none of the three calls panics, unless the
-    workload has no `spec.replicas`, or `UpgradeBatch` is asked for a batch outside the plan, or (known finding
-    `hpaNoApiVersion`) some HPA of the namespace has a `scaleTargetRef` without `apiVersion`. -/
-theorem no_panic_partial (kind : Kind) (op : Op) (w : World) (br : BR) (f : Fault)
-    (hA : panicAllowed op w br = false) (hG : gNoApiVersion w = false) :
+theorem no_panic (kind : Kind) (op : Op) (w : World) (br : BR) (f : Fault)
+    (hA : panicAllowed op w br = false) :
     ∃ out, call kind op w br f = .val out := by
   apply Out.exists_of_ne_panic
   unfold panicAllowed at hA
@@ -1163,9 +1136,8 @@ theorem no_panic_partial (kind : Kind) (op : Op) (w : World) (br : BR) (f : Faul
       · split
         · simp
         · cases hr : disableHPA w f 0 with
-          | panic => exact absurd hr (disableHPA_noPanic w f 0 hG)
-          | val r =>
-            obtain ⟨w1, b1, n1⟩ := r
+          | mk w1 r1 =>
+            obtain ⟨b1, n1⟩ := r1
             cases b1
             · simp
             · simp only []
@@ -1199,7 +1171,7 @@ theorem no_panic_partial (kind : Kind) (op : Op) (w : World) (br : BR) (f : Faul
       · split
         · simp
         · split
-          · apply finishWait_noPanic _ _ _ _ _ _ _ hG
+          · apply finishWait_noPanic
             cases kind <;> simp [waitStep, waitAllUpdatedAndReady, emptyDeployment, deployMaxUnavailable]
           · cases getSetting wl.saved with
             | none => simp
@@ -1207,28 +1179,32 @@ theorem no_panic_partial (kind : Kind) (op : Op) (w : World) (br : BR) (f : Faul
               simp only []
               split
               · simp
-              · exact finishWait_noPanic _ _ _ _ _ _ (waitStep_noPanic_patched kind wl s hR) (by simpa [gNoApiVersion] using hG)
+              · cases hfw : finishWait kind wl (finalizePatch kind s wl) { w with wl := some (finalizePatch kind s wl) } f 1 with
+                | panic => exact absurd hfw (finishWait_noPanic _ _ _ _ _ _ (waitStep_noPanic_patched kind wl s hR))
+                | val o => simp
 
 theorem restoreHPA_noFault_ok (w : World) (n : Nat) (w1 : World) (b : Bool) (n1 : Nat)
-    (h : restoreHPA w noFault n = .val (w1, b, n1)) : b = true := by
+    (h : restoreHPA w noFault n = (w1, b, n1)) : b = true := by
   unfold restoreHPA at h
-  split at h
-  · cases h
-  · simp only [Out.val.injEq, Prod.mk.injEq] at h; exact h.2.1.symm
-  · split at h
-    · simp only [Out.val.injEq, Prod.mk.injEq] at h; exact h.2.1.symm
-    · simp only [canWrite, noFault, if_true, Out.val.injEq, Prod.mk.injEq] at h; exact h.2.1.symm
+  obtain ⟨x, hx⟩ := findHPA_noFault_val w
+  rw [hx] at h
+  cases x with
+  | none => simp only [Prod.mk.injEq] at h; exact h.2.1.symm
+  | some p =>
+    obtain ⟨v, k⟩ := p
+    simp only [] at h
+    split at h
+    · simp only [Prod.mk.injEq] at h; exact h.2.1.symm
+    · simp only [canWrite, noFault, if_true, Prod.mk.injEq] at h; exact h.2.1.symm
 
-theorem finishHPA_noFault_ok (w : World) (n : Nat) (hH : gNoApiVersion w = false) :
-    ∃ out, finishHPA w noFault n = .val out ∧ out.res = .ok := by
+theorem finishHPA_noFault_ok (w : World) (n : Nat) : (finishHPA w noFault n).res = .ok := by
   unfold finishHPA
   cases hr : restoreHPA w noFault n with
-  | panic => exact absurd hr (restoreHPA_noPanic w noFault n hH)
-  | val r =>
-    obtain ⟨w1, b, n1⟩ := r
+  | mk w1 r =>
+    obtain ⟨b, n1⟩ := r
     have := restoreHPA_noFault_ok w n w1 b n1 hr
     subst this
-    exact ⟨_, rfl, rfl⟩
+    rfl
 
 theorem waitStep_of_readyNow (kind : Kind) (wl d : Workload) (hst : d.status = wl.status)
     (h : readyNow kind d = true) : waitStep kind wl d = .val true := by
@@ -1241,14 +1217,9 @@ theorem waitStep_of_readyNow (kind : Kind) (wl d : Workload) (hst : d.status = w
   · simp only [readyNow, hst] at h
     simp only [waitStep, h]
 
-/-- **C05 (the retry completes)** — from every world that satisfies the release invariant — in particular after any
-    number of earlier attempts that were cut short by faults — one undisturbed `Finalize` (with `batchPartition`
-    cleared, no HPA without `apiVersion` in the namespace) on a workload whose pods are all updated and ready
-    with respect to the *original* settings reports success; by `finalize_restores_original_step` the workload
-    then has its original settings. -/
 theorem finalize_completes (kind : Kind) (o : Orig) (w : World) (br : BR) (wl : Workload)
     (hi : inv kind o w = true) (hw : w.wl = some wl) (hR : wl.replicas.isSome = true) (hp : br.partitioned = false)
-    (hH : gNoApiVersion w = false) (hready : readyNow kind (finalizePatch kind o.setting wl) = true) :
+    (hready : readyNow kind (finalizePatch kind o.setting wl) = true) :
     ∃ out, cpFinalize kind w br noFault = .val out ∧ out.res = .ok := by
   obtain ⟨R, hR'⟩ := Option.isSome_iff_exists.1 hR
   have hstat : (finalizePatch kind o.setting wl).status = wl.status := by cases kind <;> rfl
@@ -1266,7 +1237,7 @@ theorem finalize_completes (kind : Kind) (o : Orig) (w : World) (br : BR) (wl : 
         simpa [waitStep] using this
     unfold finishWait
     rw [hwt]
-    exact finishHPA_noFault_ok w 0 hH
+    exact ⟨_, rfl, finishHPA_noFault_ok w 0⟩
   · have hr' : restored wl = false := by simpa using hr
     simp only [hr', Bool.false_eq_true, if_false]
     cases hsv : wl.saved with
@@ -1279,7 +1250,12 @@ theorem finalize_completes (kind : Kind) (o : Orig) (w : World) (br : BR) (wl : 
       simp only [getSetting, hcw, not_true_eq_false, if_false]
       unfold finishWait
       rw [waitStep_of_readyNow kind wl _ hstat hready]
-      exact finishHPA_noFault_ok _ 1 (by simpa [gNoApiVersion] using hH)
+      refine ⟨_, rfl, ?_⟩
+      have hok := finishHPA_noFault_ok { w with wl := some (finalizePatch kind o.setting wl) } 1
+      cases kind
+      · have hc2 : ∀ n, canWrite noFault n = true := fun _ => rfl
+        simp [finishForget, hok, hc2]
+      · exact hok
 
 /-! ## C01 — exposure of the new revision -/
 
@@ -1714,6 +1690,7 @@ theorem exposure_within_plan (kind : Kind) (B : Int) (hB : 1 ≤ B) (evs : List 
     simp only [Bool.and_eq_true, decide_eq_true_eq] at key
     exact key.1.1
 
+
 /-! ## C06 — attempts converge -/
 
 /-- the world after an undisturbed `DisableHPA` -/
@@ -1733,10 +1710,6 @@ def rsW (kind : Kind) (w : World) : World :=
   match kind with
   | .deployment => if hasStableRS w.rss then { w with rss := patchFirstRS w.rss } else w
   | .cloneSet => w
-
-theorem findHPA_congr (w w' : World) (f : Fault) (h2 : w'.hpaV2 = w.hpaV2) (h1 : w'.hpaV1 = w.hpaV1) :
-    findHPA w' f = findHPA w f := by
-  unfold findHPA; rw [h2, h1]
 
 theorem disabledW_of_zero (w : World) (v : Ver) (h : findHPA w noFault = .val (some (v, 0))) :
     disabledW w = setHPA w v 1 := by
@@ -1902,32 +1875,35 @@ theorem disabledW_rsW (kind : Kind) (w : World) : disabledW (rsW kind (disabledW
 /-! ### the calls in terms of the pure steps -/
 
 theorem disableHPA_pure (w : World) (f : Fault) (n : Nat) (w1 : World) (b : Bool) (n1 : Nat)
-    (h : disableHPA w f n = .val (w1, b, n1)) (hl : gListFault f = false) :
+    (h : disableHPA w f n = (w1, b, n1)) :
     (w1 = w ∨ w1 = disabledW w) ∧ (b = true → w1 = disabledW w) := by
-  simp only [gListFault, Bool.or_eq_false_iff] at hl
-  have hnl := findHPA_noList w f hl.1 hl.2
   rcases disableHPA_spec w f n w1 b n1 h with ⟨h1, _, hall⟩ | ⟨_, _, _, v, hf, h1⟩
   · refine ⟨Or.inl h1, ?_⟩
     intro hb
     rw [h1]
     symm
+    obtain ⟨x, hx, hk⟩ := hall hb
     apply disabledW_of_not
     intro v hv
-    rw [← hnl] at hv
-    exact hall hb v 0 hv rfl
-  · rw [hnl] at hf
-    rw [h1, disabledW_of_zero w v hf]
+    rw [findHPA_val_noFault w f x hx] at hv
+    simp only [Lk.val.injEq] at hv
+    exact hk v 0 hv rfl
+  · rw [h1, disabledW_of_zero w v (findHPA_val_noFault w f _ hf)]
     exact ⟨Or.inr rfl, fun _ => rfl⟩
 
 theorem disableHPA_noFault_ok (w : World) (n : Nat) (w1 : World) (b : Bool) (n1 : Nat)
-    (h : disableHPA w noFault n = .val (w1, b, n1)) : b = true := by
+    (h : disableHPA w noFault n = (w1, b, n1)) : b = true := by
   unfold disableHPA at h
-  split at h
-  · cases h
-  · simp only [Out.val.injEq, Prod.mk.injEq] at h; exact h.2.1.symm
-  · split at h
-    · simp only [Out.val.injEq, Prod.mk.injEq] at h; exact h.2.1.symm
-    · simp only [canWrite, noFault, if_true, Out.val.injEq, Prod.mk.injEq] at h; exact h.2.1.symm
+  obtain ⟨x, hx⟩ := findHPA_noFault_val w
+  rw [hx] at h
+  cases x with
+  | none => simp only [Prod.mk.injEq] at h; exact h.2.1.symm
+  | some p =>
+    obtain ⟨v, k⟩ := p
+    simp only [] at h
+    split at h
+    · simp only [Prod.mk.injEq] at h; exact h.2.1.symm
+    · simp only [canWrite, noFault, if_true, Prod.mk.injEq] at h; exact h.2.1.symm
 
 theorem stableRSStep_pure (kind : Kind) (w : World) (f : Fault) (n : Nat) (w2 : World) (b : Bool) (n2 : Nat)
     (h : stableRSStep kind w f n = (w2, b, n2)) :
@@ -1961,41 +1937,30 @@ theorem stableRSStep_noFault_ok (kind : Kind) (w : World) (n : Nat) (w2 : World)
     split at h <;> simp only [Prod.mk.injEq] at h <;> exact h.2.1.symm
   · simp only [stableRSStep, Prod.mk.injEq] at h; exact h.2.1.symm
 
-theorem finishHPA_pure (w : World) (f : Fault) (n : Nat) (out : CallOut) (h : finishHPA w f n = .val out)
-    (hl : gListFault f = false) :
-    (out.world = w ∨ out.world = enabledW w) ∧ (out.res = .ok → out.world = enabledW w) ∧
-    (out.res = .ok ∨ out.res = .err) := by
-  simp only [gListFault, Bool.or_eq_false_iff] at hl
-  have hnl := findHPA_noList w f hl.1 hl.2
-  rcases (finishHPA_spec w f n out h).2 with ⟨h1, _, hres, hall⟩ | ⟨_, hok, _, v, k, hk, hf, h1⟩
+theorem finishHPA_pure (w : World) (f : Fault) (n : Nat) :
+    ((finishHPA w f n).world = w ∨ (finishHPA w f n).world = enabledW w) ∧
+    ((finishHPA w f n).res = .ok → (finishHPA w f n).world = enabledW w) ∧
+    ((finishHPA w f n).res = .ok ∨ (finishHPA w f n).res = .err) := by
+  rcases (finishHPA_spec w f n).2 with ⟨h1, _, hres, hall⟩ | ⟨_, hok, _, v, k, hk, hf, h1⟩
   · refine ⟨Or.inl h1, ?_, hres⟩
     intro hok
     rw [h1]
     symm
+    obtain ⟨x, hx, hk⟩ := hall hok
     apply enabledW_of_not
     intro v k hv
-    rw [← hnl] at hv
-    have := hall hok v (k + 1) hv
+    rw [findHPA_val_noFault w f x hx] at hv
+    simp only [Lk.val.injEq] at hv
+    have := hk v (k + 1) hv
     omega
-  · rw [hnl] at hf
+  · have hf' := findHPA_val_noFault w f _ hf
     obtain ⟨k', rfl⟩ : ∃ k', k = k' + 1 := ⟨k - 1, by omega⟩
-    rw [h1, enabledW_of_succ w v k' hf]
+    rw [h1, enabledW_of_succ w v k' hf']
     exact ⟨Or.inr rfl, fun _ => rfl, Or.inl hok⟩
 
-theorem finishHPA_noFault (w : World) (n : Nat) (out : CallOut) (h : finishHPA w noFault n = .val out) :
-    out.world = enabledW w ∧ out.res = .ok := by
-  have hok : out.res = .ok := by
-    unfold finishHPA at h
-    cases hr : restoreHPA w noFault n with
-    | panic => rw [hr] at h; cases h
-    | val r =>
-      obtain ⟨w1, b, n1⟩ := r
-      have hb := restoreHPA_noFault_ok w n w1 b n1 hr
-      subst hb
-      rw [hr] at h
-      simp only [Out.val.injEq] at h
-      rw [← h]
-  exact ⟨(finishHPA_pure w noFault n out h rfl).2.1 hok, hok⟩
+theorem finishHPA_noFault (w : World) (n : Nat) :
+    (finishHPA w noFault n).world = enabledW w ∧ (finishHPA w noFault n).res = .ok :=
+  ⟨(finishHPA_pure w noFault n).2.1 (finishHPA_noFault_ok w n), finishHPA_noFault_ok w n⟩
 
 /-- the world `Initialize` aims at, before the patch of the workload itself -/
 def initBase (kind : Kind) (w : World) : World := rsW kind (disabledW w)
@@ -2013,10 +1978,9 @@ theorem initBase_stable (kind : Kind) (w X : World)
   · rw [h, disabledW_idem]
   · rw [h, disabledW_rsW, rsW_idem]
 
-/-- an `Initialize` that is cut short by a write fault (no List fault) on a workload it does not control yet -/
+/-- an `Initialize` that is cut short by a fault on a workload it does not control yet -/
 theorem init_first (kind : Kind) (w : World) (br : BR) (f : Fault) (o1 : CallOut) (wl : Workload)
-    (h : cpInitialize kind w br f = .val o1) (hw : w.wl = some wl) (hc : controlled br wl = false)
-    (hl : gListFault f = false) :
+    (h : cpInitialize kind w br f = .val o1) (hw : w.wl = some wl) (hc : controlled br wl = false) :
     ((o1.world = w ∨ o1.world = disabledW w ∨ o1.world = initBase kind w) ∧ o1.res ≠ .ok) ∨
     (∃ s, getSetting wl.saved = some s ∧ o1.res = .ok ∧
       o1.world = { initBase kind w with wl := some (initPatch kind br (initSetting kind s wl) wl) }) := by
@@ -2026,7 +1990,7 @@ theorem init_first (kind : Kind) (w : World) (br : BR) (f : Fault) (o1 : CallOut
   · rw [hw] at hw'; cases hw'
     rcases hcc with ⟨hc', _⟩ | ⟨_, w1, b1, n1, hd, hrest⟩
     · rw [hc] at hc'; cases hc'
-    · have hD := disableHPA_pure w f 0 w1 b1 n1 hd hl
+    · have hD := disableHPA_pure w f 0 w1 b1 n1 hd
       rcases hrest with ⟨_, ho⟩ | ⟨hb1, w2, b2, n2, hs, hrest⟩
       · subst ho; left
         refine ⟨?_, by simp⟩
@@ -2061,7 +2025,7 @@ theorem init_direct (kind : Kind) (w : World) (br : BR) (o : CallOut) (wl : Work
     rcases hcc with ⟨hc', _⟩ | ⟨_, w1, b1, n1, hd, hrest⟩
     · rw [hc] at hc'; cases hc'
     · have hb1 := disableHPA_noFault_ok w 0 w1 b1 n1 hd
-      have hw1 := (disableHPA_pure w noFault 0 w1 b1 n1 hd rfl).2 hb1
+      have hw1 := (disableHPA_pure w noFault 0 w1 b1 n1 hd).2 hb1
       rcases hrest with ⟨hb, _⟩ | ⟨_, w2, b2, n2, hs, hrest⟩
       · rw [hb1] at hb; cases hb
       · have hb2 := stableRSStep_noFault_ok kind w1 n1 w2 b2 n2 hs
@@ -2076,7 +2040,7 @@ theorem init_direct (kind : Kind) (w : World) (br : BR) (o : CallOut) (wl : Work
 
 theorem init_converges (kind : Kind) (w : World) (br : BR) (f : Fault) (o1 o2 o3 : CallOut)
     (h1 : cpInitialize kind w br f = .val o1) (h2 : cpInitialize kind o1.world br noFault = .val o2)
-    (h3 : cpInitialize kind w br noFault = .val o3) (hl : gListFault f = false) :
+    (h3 : cpInitialize kind w br noFault = .val o3) :
     o2.world = o3.world ∧ o2.res = o3.res := by
   cases hw : w.wl with
   | none =>
@@ -2106,7 +2070,7 @@ theorem init_converges (kind : Kind) (w : World) (br : BR) (f : Fault) (o1 o2 o3
       cases h3
       exact ⟨rfl, rfl⟩
     · have hc' : controlled br wl = false := by simpa using hc
-      rcases init_first kind w br f o1 wl h1 hw hc' hl with ⟨hX, _⟩ | ⟨s, hgs, _, hw1⟩
+      rcases init_first kind w br f o1 wl h1 hw hc' with ⟨hX, _⟩ | ⟨s, hgs, _, hw1⟩
       · have hwl1 : o1.world.wl = some wl := by
           rcases hX with e | e | e
           · rw [e]; exact hw
@@ -2203,6 +2167,34 @@ theorem upgrade_converges (kind : Kind) (w : World) (br : BR) (f : Fault) (o1 o2
           · rw [hcw] at hcw'; cases hcw'
     exact ⟨by rw [e2.1, e3.1], by rw [e2.2, e3.2]⟩
 
+
+/-! ### `Finalize` in terms of the pure steps -/
+
+theorem with_wl_id (W : World) (a : Workload) (h : W.wl = some a) : { W with wl := some a } = W := by
+  cases W; simp_all
+
+theorem forget_id (W : World) (a : Workload) (h : W.wl = some a) (hs : a.saved = .none) : forget W = W := by
+  cases W; cases a; simp_all [forget]
+
+theorem forget_idem (W : World) : forget (forget W) = forget W := by
+  cases W with
+  | mk wl rss v2 v1 => cases wl <;> simp [forget]
+
+theorem enabledW_forget (W : World) : enabledW (forget W) = forget (enabledW W) := by
+  have h1 : forget W = { W with wl := (forget W).wl } := rfl
+  rw [h1, enabledW_with_wl]
+  have h2 : (enabledW W).wl = W.wl := (enabledW_frame W).1
+  cases hW : enabledW W with
+  | mk wl rss v2 v1 =>
+    rw [hW] at h2
+    simp only at h2
+    subst h2
+    rfl
+
+theorem finalizePatch_idem (kind : Kind) (s : Setting) (wl : Workload) :
+    finalizePatch kind s (finalizePatch kind s wl) = finalizePatch kind s wl := by
+  cases kind <;> rfl
+
 /-- an undisturbed `Finalize` that is meant to release an existing workload -/
 theorem finalize_direct (kind : Kind) (X : World) (br : BR) (o : CallOut) (wl : Workload)
     (h : cpFinalize kind X br noFault = .val o) (hw : X.wl = some wl) (hp : br.partitioned = false) :
@@ -2215,7 +2207,7 @@ theorem finalize_direct (kind : Kind) (X : World) (br : BR) (o : CallOut) (wl : 
          ((waitStep kind wl (finalizePatch kind s wl) = .val false ∧
              o.world = { X with wl := some (finalizePatch kind s wl) } ∧ o.res = .retry) ∨
           (waitStep kind wl (finalizePatch kind s wl) = .val true ∧
-             o.world = enabledW { X with wl := some (finalizePatch kind s wl) } ∧ o.res = .ok))))) := by
+             o.world = forget (enabledW { X with wl := some (finalizePatch kind s wl) }) ∧ o.res = .ok))))) := by
   rcases finalize_cases kind X br noFault o h with ⟨hg, _⟩ | ⟨_, hn, _⟩ | ⟨wl', R, _, hw', _, hc⟩
   · cases hg
   · rw [hw] at hn; cases hn
@@ -2227,28 +2219,45 @@ theorem finalize_direct (kind : Kind) (X : World) (br : BR) (o : CallOut) (wl : 
         refine ⟨hr, ?_⟩
         rcases hfw with ⟨hwt, ho⟩ | ⟨hwt, hfin⟩
         · subst ho; left; exact ⟨hwt, rfl, rfl⟩
-        · right; exact ⟨hwt, finishHPA_noFault _ _ _ hfin⟩
+        · right; rw [hfin]; exact ⟨hwt, finishHPA_noFault _ _⟩
       · right
         refine ⟨hr, ?_⟩
         rcases hc with ⟨hgs, ho⟩ | ⟨s, hgs, hc⟩
         · subst ho; left; exact ⟨hgs, rfl, rfl⟩
         · right
           refine ⟨s, hgs, ?_⟩
-          rcases hc with ⟨hcw, _⟩ | ⟨_, hfw⟩
+          rcases hc with ⟨hcw, _⟩ | ⟨_, oo, hfw, ho⟩
           · cases hcw
-          · rcases hfw with ⟨hwt, ho⟩ | ⟨hwt, hfin⟩
-            · subst ho; left; exact ⟨hwt, rfl, rfl⟩
-            · right; exact ⟨hwt, finishHPA_noFault _ _ _ hfin⟩
+          · subst ho
+            rcases hfw with ⟨hwt, ho⟩ | ⟨hwt, hfin⟩
+            · subst ho
+              left
+              refine ⟨hwt, ?_, ?_⟩ <;> cases kind <;> rfl
+            · right
+              refine ⟨hwt, ?_⟩
+              have hfn := finishHPA_noFault { X with wl := some (finalizePatch kind s wl) } 1
+              rw [← hfin] at hfn
+              have hc2 : ∀ n, canWrite noFault n = true := fun _ => rfl
+              cases kind
+              · simp only [finishForget, hfn.2, if_true, hc2, hfn.1, and_self]
+              · simp only [finishForget]
+                refine ⟨?_, hfn.2⟩
+                rw [hfn.1]
+                symm
+                apply forget_id _ (finalizePatch .cloneSet s wl)
+                · rw [(enabledW_frame _).1]
+                · rfl
 
-/-- the worlds a `Finalize` under write faults (no List fault) can leave behind -/
+/-- the worlds a `Finalize` under faults can leave behind -/
 theorem finalize_first (kind : Kind) (w : World) (br : BR) (f : Fault) (o1 : CallOut) (wl : Workload)
-    (h : cpFinalize kind w br f = .val o1) (hw : w.wl = some wl) (hl : gListFault f = false) :
+    (h : cpFinalize kind w br f = .val o1) (hw : w.wl = some wl) :
     o1.world = w ∨
-    (restored wl = true ∧ waitStep kind wl emptyDeployment = .val true ∧ o1.world = enabledW w) ∨
+    (restored wl = true ∧ br.partitioned = false ∧ waitStep kind wl emptyDeployment = .val true ∧ o1.world = enabledW w) ∨
     (restored wl = false ∧ br.partitioned = false ∧ ∃ s, getSetting wl.saved = some s ∧
       (o1.world = { w with wl := some (finalizePatch kind s wl) } ∨
        (waitStep kind wl (finalizePatch kind s wl) = .val true ∧
-          o1.world = enabledW { w with wl := some (finalizePatch kind s wl) }))) := by
+          (o1.world = enabledW { w with wl := some (finalizePatch kind s wl) } ∨
+           o1.world = forget (enabledW { w with wl := some (finalizePatch kind s wl) }))))) := by
   rcases finalize_cases kind w br f o1 h with ⟨_, ho⟩ | ⟨_, _, ho⟩ | ⟨wl', R, _, hw', _, hc⟩
   · subst ho; left; rfl
   · subst ho; left; rfl
@@ -2258,31 +2267,44 @@ theorem finalize_first (kind : Kind) (w : World) (br : BR) (f : Fault) (o1 : Cal
     · rcases hc with ⟨hr, hfw⟩ | ⟨hr, hc⟩
       · rcases hfw with ⟨_, ho⟩ | ⟨hwt, hfin⟩
         · subst ho; left; rfl
-        · rcases (finishHPA_pure _ _ _ _ hfin hl).1 with e | e
-          · left; exact e
-          · right; left; exact ⟨hr, hwt, e⟩
+        · rcases (finishHPA_pure w f 0).1 with e | e
+          · left; rw [hfin]; exact e
+          · right; left; rw [hfin]; exact ⟨hr, hp, hwt, e⟩
       · rcases hc with ⟨_, ho⟩ | ⟨s, hgs, hc⟩
         · subst ho; left; rfl
-        · rcases hc with ⟨_, ho⟩ | ⟨_, hfw⟩
+        · rcases hc with ⟨_, ho⟩ | ⟨_, oo, hfw, ho⟩
           · subst ho; left; rfl
           · right; right
             refine ⟨hr, hp, s, hgs, ?_⟩
+            subst ho
             rcases hfw with ⟨_, ho⟩ | ⟨hwt, hfin⟩
-            · subst ho; left; rfl
-            · rcases (finishHPA_pure _ _ _ _ hfin hl).1 with e | e
-              · left; exact e
-              · right; exact ⟨hwt, e⟩
+            · subst ho
+              left
+              cases kind <;> rfl
+            · have hpure := finishHPA_pure { w with wl := some (finalizePatch kind s wl) } f 1
+              rw [← hfin] at hpure
+              rcases finishForget_spec kind f oo with e | ⟨_, hok, _, e⟩ | ⟨_, hok, _, e⟩
+              · rw [e]
+                rcases hpure.1 with e1 | e1
+                · left; exact e1
+                · right; exact ⟨hwt, Or.inl e1⟩
+              · rw [e]
+                right
+                refine ⟨hwt, Or.inr ?_⟩
+                simp only []
+                rw [hpure.2.1 hok]
+              · rw [e]
+                right
+                refine ⟨hwt, Or.inl ?_⟩
+                simp only []
+                exact hpure.2.1 hok
 
-theorem restored_finalizePatch (kind : Kind) (s : Setting) (wl : Workload) : restored (finalizePatch kind s wl) = true := by
-  cases kind <;> simp [restored, finalizePatch]
-
-theorem waitStep_cs_irrel (wl d d' : Workload) : waitStep .cloneSet wl d = waitStep .cloneSet wl d' := rfl
+theorem restored_forgetWl (a : Workload) : restored (forgetWl a) = true := by
+  simp [restored, forgetWl]
 
 theorem finalize_converges (kind : Kind) (w : World) (br : BR) (f : Fault) (o1 o2 o3 : CallOut)
     (h1 : cpFinalize kind w br f = .val o1) (h2 : cpFinalize kind o1.world br noFault = .val o2)
-    (h3 : cpFinalize kind w br noFault = .val o3) (hl : gListFault f = false)
-    (hG : ∀ wl, w.wl = some wl → ¬ (kind = .deployment ∧ br.partitioned = false ∧ restored wl = false ∧
-      waitFailsAfterPatch wl = true)) :
+    (h3 : cpFinalize kind w br noFault = .val o3) :
     o2.world = o3.world ∧ o2.res = o3.res := by
   have same : o1.world = w → o2.world = o3.world ∧ o2.res = o3.res := by
     intro e
@@ -2298,104 +2320,127 @@ theorem finalize_converges (kind : Kind) (w : World) (br : BR) (f : Fault) (o1 o
     · subst ho; rfl
     · rw [hw] at hw'; cases hw'
   | some wl =>
-    rcases finalize_first kind w br f o1 wl h1 hw hl with e | ⟨hr, hwt, e⟩ | ⟨hr, hp, s, hgs, hcase⟩
+    rcases finalize_first kind w br f o1 wl h1 hw with e | ⟨hr, hp, hwt, e⟩ | ⟨hr, hp, s, hgs, hcase⟩
     · exact same e
     · -- restored path completed: the second attempt repeats it on the enabled world
-      by_cases hp : br.partitioned = true
-      · -- impossible: a partitioned Finalize does not reach RestoreHPA; but then nothing changed at all
-        have : o1.world = w := by
-          rcases finalize_cases kind w br f o1 h1 with ⟨_, ho⟩ | ⟨_, _, ho⟩ | ⟨wl', _, _, hw', _, hc⟩
-          · subst ho; rfl
-          · subst ho; rfl
-          · rcases hc with ⟨_, ho⟩ | ⟨hp', _⟩
-            · subst ho; rfl
-            · rw [hp] at hp'; cases hp'
-        exact same this
-      · have hp' : br.partitioned = false := by simpa using hp
-        have hwl1 : o1.world.wl = some wl := by rw [e, (enabledW_frame w).1]; exact hw
-        rcases finalize_direct kind o1.world br o2 wl h2 hwl1 hp' with ⟨_, hc2⟩ | ⟨hr2, _⟩
-        · rcases finalize_direct kind w br o3 wl h3 hw hp' with ⟨_, hc3⟩ | ⟨hr3, _⟩
-          · rcases hc2 with ⟨hw2, _⟩ | ⟨_, ew2, er2⟩
-            · rw [hwt] at hw2; cases hw2
-            · rcases hc3 with ⟨hw3, _⟩ | ⟨_, ew3, er3⟩
-              · rw [hwt] at hw3; cases hw3
-              · exact ⟨by rw [ew2, ew3, e, enabledW_idem], by rw [er2, er3]⟩
-          · rw [hr] at hr3; cases hr3
-        · rw [hr] at hr2; cases hr2
-    · -- patched path
-      let wl' := finalizePatch kind s wl
-      have hwl1 : o1.world.wl = some wl' := by
-        rcases hcase with e | ⟨_, e⟩
-        · rw [e]
-        · rw [e, (enabledW_frame _).1]
-      have hen : enabledW o1.world = enabledW { w with wl := some wl' } := by
-        rcases hcase with e | ⟨_, e⟩
-        · rw [e]
-        · rw [e, enabledW_idem]
-      have hr' := restored_finalizePatch kind s wl
+      have hwl1 : o1.world.wl = some wl := by rw [e, (enabledW_frame w).1]; exact hw
+      rcases finalize_direct kind o1.world br o2 wl h2 hwl1 hp with ⟨_, hc2⟩ | ⟨hr2, _⟩
+      · rcases finalize_direct kind w br o3 wl h3 hw hp with ⟨_, hc3⟩ | ⟨hr3, _⟩
+        · rcases hc2 with ⟨hw2, _⟩ | ⟨_, ew2, er2⟩
+          · rw [hwt] at hw2; cases hw2
+          · rcases hc3 with ⟨hw3, _⟩ | ⟨_, ew3, er3⟩
+            · rw [hwt] at hw3; cases hw3
+            · exact ⟨by rw [ew2, ew3, e, enabledW_idem], by rw [er2, er3]⟩
+        · rw [hr] at hr3; cases hr3
+      · rw [hr] at hr2; cases hr2
+    · -- a restoring patch was made
+      -- what the undisturbed call does
       rcases finalize_direct kind w br o3 wl h3 hw hp with ⟨hr3, _⟩ | ⟨_, hc3⟩
       · rw [hr] at hr3; cases hr3
       · rcases hc3 with ⟨hg3, _⟩ | ⟨s3, hg3, hc3⟩
         · rw [hgs] at hg3; cases hg3
         · rw [hgs] at hg3; cases hg3
-          -- the verdict of the wait in the second attempt equals the verdict of the undisturbed call
-          have hverdict : ∀ b, waitStep kind wl wl' = .val b → waitStep kind wl' emptyDeployment = .val b := by
-            intro b hb
-            cases kind
-            · -- Deployment: the empty object always passes; outside the guard the real wait passes too
-              cases b
-              · exfalso
-                apply hG wl hw
-                refine ⟨rfl, hp, hr, ?_⟩
-                simp only [waitFailsAfterPatch, hgs]
-                simp only [waitStep] at hb
-                rw [hb]
+          -- abbreviations are avoided on purpose: `wl'` is `finalizePatch kind s wl`, `X1` the world with it
+          have hX1wl : ({ w with wl := some (finalizePatch kind s wl) } : World).wl = some (finalizePatch kind s wl) := rfl
+          have hEwl : (enabledW { w with wl := some (finalizePatch kind s wl) }).wl = some (finalizePatch kind s wl) := by
+            rw [(enabledW_frame _).1]
+          have hFwl : (forget (enabledW { w with wl := some (finalizePatch kind s wl) })).wl =
+              some (forgetWl (finalizePatch kind s wl)) := forget_wl _ _ hEwl
+          -- the third possibility first: everything was done
+          have caseC : waitStep kind wl (finalizePatch kind s wl) = .val true →
+              o1.world = forget (enabledW { w with wl := some (finalizePatch kind s wl) }) →
+              o2.world = o3.world ∧ o2.res = o3.res := by
+            intro hwt e
+            have hwl1 : o1.world.wl = some (forgetWl (finalizePatch kind s wl)) := by rw [e]; exact hFwl
+            have hwt2 : waitStep kind (forgetWl (finalizePatch kind s wl)) emptyDeployment = .val true := by
+              cases kind
               · rfl
-            · simpa [waitStep, wl', finalizePatch] using hb
-          rcases finalize_direct kind o1.world br o2 wl' h2 hwl1 hp with ⟨_, hc2⟩ | ⟨hr2, _⟩
-          · rcases hc3 with ⟨hw3, ew3, er3⟩ | ⟨hw3, ew3, er3⟩
-            · have hv := hverdict false hw3
-              rcases hc2 with ⟨_, ew2, er2⟩ | ⟨hw2, _⟩
-              · -- both report retry; the first attempt cannot have reached RestoreHPA
-                have e1 : o1.world = { w with wl := some wl' } := by
-                  rcases hcase with e | ⟨hwt, _⟩
-                  · exact e
-                  · rw [hw3] at hwt; cases hwt
-                exact ⟨by rw [ew2, ew3, e1], by rw [er2, er3]⟩
-              · rw [hv] at hw2; cases hw2
-            · have hv := hverdict true hw3
-              rcases hc2 with ⟨hw2, _⟩ | ⟨_, ew2, er2⟩
-              · rw [hv] at hw2; cases hw2
-              · exact ⟨by rw [ew2, ew3, hen], by rw [er2, er3]⟩
-          · rw [hr'] at hr2; cases hr2
+              · exact hwt
+            rcases finalize_direct kind o1.world br o2 _ h2 hwl1 hp with ⟨_, hc2⟩ | ⟨hr2, _⟩
+            · rcases hc2 with ⟨hw2, _⟩ | ⟨_, ew2, er2⟩
+              · rw [hwt2] at hw2; cases hw2
+              · rcases hc3 with ⟨hw3, _⟩ | ⟨_, ew3, er3⟩
+                · rw [hwt] at hw3; cases hw3
+                · exact ⟨by rw [ew2, ew3, e, enabledW_forget, enabledW_idem], by rw [er2, er3]⟩
+            · rw [restored_forgetWl] at hr2; cases hr2
+          cases kind with
+          | deployment =>
+            -- the Deployment still carries the saved annotation: the second attempt patches again
+            have hres : restored (finalizePatch .deployment s wl) = false := hr
+            have hgs' : getSetting (finalizePatch .deployment s wl).saved = some s := hgs
+            have second : o1.world.wl = some (finalizePatch .deployment s wl) →
+                { o1.world with wl := some (finalizePatch .deployment s wl) } = o1.world →
+                enabledW o1.world = enabledW { w with wl := some (finalizePatch .deployment s wl) } →
+                (waitStep .deployment wl (finalizePatch .deployment s wl) = .val false →
+                  o1.world = { w with wl := some (finalizePatch .deployment s wl) }) →
+                o2.world = o3.world ∧ o2.res = o3.res := by
+              intro hwl1 hid hen hfalse
+              rcases finalize_direct .deployment o1.world br o2 _ h2 hwl1 hp with ⟨hr2, _⟩ | ⟨_, hc2⟩
+              · rw [hres] at hr2; cases hr2
+              · rcases hc2 with ⟨hg2, _⟩ | ⟨s2, hg2, hc2⟩
+                · rw [hgs'] at hg2; cases hg2
+                · rw [hgs'] at hg2; cases hg2
+                  rw [finalizePatch_idem, hid] at hc2
+                  have hwsame : waitStep .deployment (finalizePatch .deployment s wl) (finalizePatch .deployment s wl) =
+                      waitStep .deployment wl (finalizePatch .deployment s wl) := rfl
+                  rw [hwsame] at hc2
+                  rcases hc2 with ⟨hw2, ew2, er2⟩ | ⟨hw2, ew2, er2⟩ <;>
+                    rcases hc3 with ⟨hw3, ew3, er3⟩ | ⟨hw3, ew3, er3⟩
+                  · exact ⟨by rw [ew2, ew3, hfalse hw2], by rw [er2, er3]⟩
+                  · rw [hw2] at hw3; cases hw3
+                  · rw [hw2] at hw3; cases hw3
+                  · exact ⟨by rw [ew2, ew3, hen], by rw [er2, er3]⟩
+            rcases hcase with e | ⟨hwt, e | e⟩
+            · exact second (by rw [e]) (by rw [e]) (by rw [e]) (fun _ => e)
+            · refine second (by rw [e]; exact hEwl) (by rw [e]; exact with_wl_id _ _ hEwl) (by rw [e, enabledW_idem]) ?_
+              intro hf; rw [hwt] at hf; cases hf
+            · exact caseC hwt e
+          | cloneSet =>
+            -- the CloneSet has lost the annotation with the first patch: the second attempt only waits and restores the HPA
+            have hres : restored (finalizePatch .cloneSet s wl) = true := by simp [restored, finalizePatch]
+            have hfid : forget (enabledW { w with wl := some (finalizePatch .cloneSet s wl) }) =
+                enabledW { w with wl := some (finalizePatch .cloneSet s wl) } :=
+              forget_id _ _ hEwl rfl
+            have second : o1.world.wl = some (finalizePatch .cloneSet s wl) →
+                enabledW o1.world = enabledW { w with wl := some (finalizePatch .cloneSet s wl) } →
+                (waitStep .cloneSet wl (finalizePatch .cloneSet s wl) = .val false →
+                  o1.world = { w with wl := some (finalizePatch .cloneSet s wl) }) →
+                o2.world = o3.world ∧ o2.res = o3.res := by
+              intro hwl1 hen hfalse
+              have hwsame : waitStep .cloneSet (finalizePatch .cloneSet s wl) emptyDeployment =
+                  waitStep .cloneSet wl (finalizePatch .cloneSet s wl) := rfl
+              rcases finalize_direct .cloneSet o1.world br o2 _ h2 hwl1 hp with ⟨_, hc2⟩ | ⟨hr2, _⟩
+              · rw [hwsame] at hc2
+                rcases hc2 with ⟨hw2, ew2, er2⟩ | ⟨hw2, ew2, er2⟩ <;>
+                  rcases hc3 with ⟨hw3, ew3, er3⟩ | ⟨hw3, ew3, er3⟩
+                · exact ⟨by rw [ew2, ew3, hfalse hw2], by rw [er2, er3]⟩
+                · rw [hw2] at hw3; cases hw3
+                · rw [hw2] at hw3; cases hw3
+                · exact ⟨by rw [ew2, ew3, hen, hfid], by rw [er2, er3]⟩
+              · rw [hres] at hr2; cases hr2
+            rcases hcase with e | ⟨hwt, e | e⟩
+            · exact second (by rw [e]) (by rw [e]) (fun _ => e)
+            · refine second (by rw [e]; exact hEwl) (by rw [e, enabledW_idem]) ?_
+              intro hf; rw [hwt] at hf; cases hf
+            · exact caseC hwt e
 
-/-- **C06 (convergence, partial)** — for each of the three calls, every world and every write / Get fault: if an
-    attempt is cut short by the fault and the call is simply repeated (as the next reconcile does), the object
-    store ends exactly where an undisturbed call would have put it, and the repeated call reports what the
-    undisturbed one reports.  Outside the known findings `hpaListFault` (a failed List of HPAs is mistaken for
-    "no HPA") and `deployFinalizeRetry` (the Deployment `Finalize` whose wait failed after its patch). -/
-theorem retry_converges_partial (kind : Kind) (op : Op) (w : World) (br : BR) (f : Fault) (o1 o2 o3 : CallOut)
+theorem retry_converges (kind : Kind) (op : Op) (w : World) (br : BR) (f : Fault) (o1 o2 o3 : CallOut)
     (h1 : call kind op w br f = .val o1) (h2 : call kind op o1.world br noFault = .val o2)
-    (h3 : call kind op w br noFault = .val o3)
-    (hL : gListFault f = false) (hG : gFinalizeWaitFails kind op w br = false) :
+    (h3 : call kind op w br noFault = .val o3) :
     retryConverges o2 o3 = true := by
   unfold retryConverges
   simp only [Bool.and_eq_true, decide_eq_true_eq]
   cases op with
-  | init => exact init_converges kind w br f o1 o2 o3 h1 h2 h3 hL
+  | init => exact init_converges kind w br f o1 o2 o3 h1 h2 h3
   | upgrade => exact upgrade_converges kind w br f o1 o2 o3 h1 h2 h3
-  | fin =>
-    apply finalize_converges kind w br f o1 o2 o3 h1 h2 h3 hL
-    intro wl hw ⟨hk, hp, hr, hwf⟩
-    subst hk
-    simp [gFinalizeWaitFails, hw, hp, hr, hwf] at hG
+  | fin => exact finalize_converges kind w br f o1 o2 o3 h1 h2 h3
 
 theorem findHPA_enabledW (w : World) (v : Ver) (k : Nat) (h : findHPA (enabledW w) noFault = .val (some (v, k))) :
     k = 0 := by
   by_cases hs : ∃ v' k', findHPA w noFault = .val (some (v', k' + 1))
   · obtain ⟨v', k', hf⟩ := hs
     rw [enabledW_of_succ w v' k' hf, findHPA_setHPA w v' (k' + 1) 0 hf] at h
-    simp only [Out.val.injEq, Option.some.injEq, Prod.mk.injEq] at h
+    simp only [Lk.val.injEq, Option.some.injEq, Prod.mk.injEq] at h
     exact h.2.symm
   · have hs' : ∀ v' k', findHPA w noFault ≠ .val (some (v', k' + 1)) := fun v' k' hv => hs ⟨v', k', hv⟩
     rw [enabledW_of_not w hs'] at h
@@ -2417,14 +2462,10 @@ theorem curSurge_upgradePatch (kind : Kind) (e : IntOrPct) (wl : Workload) :
     curSurge (upgradePatch kind e wl) = RV.BatchCtx.normSurge e := by
   cases kind <;> simp [curSurge, upgradePatch, ruSurge]
 
-/-- **C06 (no step twice with additional effect, partial)** — repeating an undisturbed call changes nothing and
-    reports the same; after a success the repetition issues no write at all, except that `UpgradeBatch` re-sends its
-    (identical) patch when the batch is exactly `1`.  Outside the known finding `deployFinalizeRetry`. -/
-theorem idempotent_partial (kind : Kind) (op : Op) (w : World) (br : BR) (o3 o4 : CallOut)
-    (h3 : call kind op w br noFault = .val o3) (h4 : call kind op o3.world br noFault = .val o4)
-    (hG : gFinalizeWaitFails kind op w br = false) :
+theorem idempotent_calls (kind : Kind) (op : Op) (w : World) (br : BR) (o3 o4 : CallOut)
+    (h3 : call kind op w br noFault = .val o3) (h4 : call kind op o3.world br noFault = .val o4) :
     idempotent op br o3 o4 = true := by
-  have hconv := retry_converges_partial kind op w br noFault o3 o4 o3 h3 h4 h3 rfl hG
+  have hconv := retry_converges kind op w br noFault o3 o4 o3 h3 h4 h3
   unfold retryConverges at hconv
   simp only [Bool.and_eq_true, decide_eq_true_eq] at hconv
   unfold idempotent
@@ -2471,9 +2512,9 @@ theorem idempotent_partial (kind : Kind) (op : Op) (w : World) (br : BR) (o3 o4 
     | fin =>
       left; right
       have fin0 : ∀ X : World, (∀ v k, findHPA X noFault = .val (some (v, k)) → k = 0) →
-          finishHPA X noFault 0 = .val o4 → o4.writes = 0 := by
-        intro X hall hf
-        rcases (finishHPA_spec X noFault 0 o4 hf).2 with ⟨_, e, _⟩ | ⟨_, _, _, v, k, hk, hfk, _⟩
+          (finishHPA X noFault 0).writes = 0 := by
+        intro X hall
+        rcases (finishHPA_spec X noFault 0).2 with ⟨_, e, _⟩ | ⟨_, _, _, v, k, hk, hfk, _⟩
         · exact e
         · exact absurd (hall v k hfk) hk
       -- the world the successful call left: restored workload, HPA enabled
@@ -2501,9 +2542,9 @@ theorem idempotent_partial (kind : Kind) (op : Op) (w : World) (br : BR) (o3 o4 
               · rw [hok] at er; cases er
               · rcases hc with ⟨_, _, er⟩ | ⟨_, ew, _⟩
                 · rw [hok] at er; cases er
-                · rw [ew, (enabledW_frame _).1] at h4'
+                · rw [ew, forget_wl _ _ (by rw [(enabledW_frame _).1])] at h4'
                   simp only [Option.some.injEq] at h4'
-                  rw [← h4']; exact restored_finalizePatch kind s wl
+                  rw [← h4']; exact restored_forgetWl _
           · intro hp _ v k hf
             rcases finalize_direct kind w br o3 wl h3 hw hp with ⟨_, hc⟩ | ⟨_, hc⟩
             · rcases hc with ⟨_, _, er⟩ | ⟨_, ew, _⟩
@@ -2513,7 +2554,8 @@ theorem idempotent_partial (kind : Kind) (op : Op) (w : World) (br : BR) (o3 o4 
               · rw [hok] at er; cases er
               · rcases hc with ⟨_, _, er⟩ | ⟨_, ew, _⟩
                 · rw [hok] at er; cases er
-                · rw [ew] at hf; exact findHPA_enabledW _ v k hf
+                · rw [ew, findHPA_congr _ _ noFault (forget_hpa _).1 (forget_hpa _).2.1] at hf
+                  exact findHPA_enabledW _ v k hf
       rcases finalize_cases kind o3.world br noFault o4 h4 with ⟨_, ho⟩ | ⟨_, _, ho⟩ | ⟨wl4, _, _, hw4, _, hc⟩
       · subst ho; rfl
       · subst ho; rfl
@@ -2533,7 +2575,7 @@ theorem idempotent_partial (kind : Kind) (op : Op) (w : World) (br : BR) (o3 o4 
           rcases hc with ⟨_, hfw⟩ | ⟨hr, _⟩
           · rcases hfw with ⟨_, ho⟩ | ⟨_, hfin⟩
             · subst ho; rfl
-            · exact fin0 o3.world (hshape.2 hp hex) hfin
+            · rw [hfin]; exact fin0 o3.world (hshape.2 hp hex)
           · rw [hshape.1 wl4 hw4 hp] at hr; cases hr
   · left; left; exact hok
 
@@ -2564,7 +2606,7 @@ theorem findHPA_disabledW (w : World) (v : Ver) (k : Nat) (h : findHPA (disabled
   by_cases hs : ∃ v', findHPA w noFault = .val (some (v', 0))
   · obtain ⟨v', hf⟩ := hs
     rw [disabledW_of_zero w v' hf, findHPA_setHPA w v' 0 1 hf] at h
-    simp only [Out.val.injEq, Option.some.injEq, Prod.mk.injEq] at h
+    simp only [Lk.val.injEq, Option.some.injEq, Prod.mk.injEq] at h
     omega
   · have hs' : ∀ v', findHPA w noFault ≠ .val (some (v', 0)) := fun v' hv => hs ⟨v', hv⟩
     rw [disabledW_of_not w hs'] at h
@@ -2577,8 +2619,8 @@ theorem hpaDisabled_congr (w w' : World) (h2 : w'.hpaV2 = w.hpaV2) (h1 : w'.hpaV
   unfold hpaDisabled
   rw [findHPA_congr w w' noFault h2 h1]
 
-theorem init_disables_hpa_partial (kind : Kind) (w : World) (br : BR) (f : Fault) (out : CallOut)
-    (h : cpInitialize kind w br f = .val out) (hG : gListFault f = false) : initDisablesHPA w br out = true := by
+theorem init_disables_hpa (kind : Kind) (w : World) (br : BR) (f : Fault) (out : CallOut)
+    (h : cpInitialize kind w br f = .val out) : initDisablesHPA w br out = true := by
   unfold initDisablesHPA
   cases hw : w.wl with
   | none => rfl
@@ -2587,7 +2629,7 @@ theorem init_disables_hpa_partial (kind : Kind) (w : World) (br : BR) (f : Fault
     split
     · rename_i hc
       have hc' : controlled br wl = false := by simpa using hc.1
-      rcases init_first kind w br f out wl h hw hc' hG with ⟨_, hne⟩ | ⟨s, _, _, hw1⟩
+      rcases init_first kind w br f out wl h hw hc' with ⟨_, hne⟩ | ⟨s, _, _, hw1⟩
       · exact absurd hc.2 hne
       · rw [hw1]
         have : hpaDisabled { initBase kind w with wl := some (initPatch kind br (initSetting kind s wl) wl) } =
@@ -2604,7 +2646,6 @@ theorem init_disables_hpa_partial (kind : Kind) (w : World) (br : BR) (f : Fault
         · rfl
     · rfl
 
-
 theorem upgrade_keeps_hold (kind : Kind) (w : World) (br : BR) (f : Fault) (out : CallOut)
     (h : cpUpgradeBatch kind w br f = .val out) : upgradeKeepsHold kind out = true := by
   unfold upgradeKeepsHold
@@ -2616,5 +2657,38 @@ theorem upgrade_keeps_hold (kind : Kind) (w : World) (br : BR) (f : Fault) (out 
     · simp only [validate, Bool.and_eq_true, decide_eq_true_eq] at hv
       simp only [upgradePatch, Bool.and_eq_true]
       exact ⟨decide_eq_true hv.2, decide_eq_true hv.1.2⟩
+
+
+theorem finalize_patch_releases (kind : Kind) (w : World) (br : BR) (f : Fault) (out : CallOut)
+    (h : cpFinalize kind w br f = .val out) : finalizePatchReleases kind w out = true := by
+  unfold finalizePatchReleases
+  rcases finalize_wl kind w br f out h with hw | ⟨wl, s, hw, _, _, _, hw'⟩
+  · rw [hw]
+    cases hwl : w.wl with
+    | none => rfl
+    | some wl => simp
+  · rw [hw]
+    rcases hw' with hw' | hw' <;> rw [hw'] <;> simp only [] <;> split
+    · rename_i hc; obtain ⟨hk, _, _⟩ := hc; subst hk; rfl
+    · rfl
+    · rename_i hc; obtain ⟨hk, _, _⟩ := hc; subst hk; rfl
+    · rfl
+
+theorem finalize_completes_oracle (kind : Kind) (o : Orig) (w : World) (br : BR) (f : Fault) (out : CallOut)
+    (h : cpFinalize kind w br f = .val out) : finalizeCompletes kind o w br f out = true := by
+  unfold finalizeCompletes
+  cases hw : w.wl with
+  | none => rfl
+  | some wl =>
+    simp only []
+    split
+    · rename_i hc
+      obtain ⟨hi, hf, hp, hR, hready⟩ := hc
+      subst hf
+      obtain ⟨out', h', hok⟩ := finalize_completes kind o w br wl hi hw hR hp hready
+      rw [h] at h'
+      cases h'
+      simp only [decide_eq_true_eq]; exact hok
+    · rfl
 
 end RV.Lemmas.CtlBlueGreen
